@@ -1,5 +1,5 @@
 // auto-generated: "lalrpop 0.23.1"
-// sha3: 644d943273d096085146db31d1c8aee025f0ea4e944ae93eecace63157db56b1
+// sha3: 5a18cd2c556ebd33f1f2ced5bd836f14f44a11a52a02b32276f1eeacf3d78842
 use crate::rt::*;
 #[allow(unused_extern_crates)]
 extern crate lalrpop_util as __lalrpop_util;
@@ -10,7 +10,7 @@ extern crate alloc;
 
 #[rustfmt::skip]
 #[allow(explicit_outlives_requirements, non_snake_case, non_camel_case_types, unused_mut, unused_variables, unused_imports, unused_parens, clippy::needless_lifetimes, clippy::type_complexity, clippy::needless_return, clippy::too_many_arguments, clippy::match_single_binding, clippy::clone_on_copy, clippy::unit_arg)]
-mod __parse__S {
+mod __parse__E {
 
     use crate::rt::*;
     #[allow(unused_extern_crates)]
@@ -20,14 +20,14 @@ mod __parse__S {
     #[allow(unused_extern_crates)]
     extern crate alloc;
     use super::__ToTriple;
-    pub struct SParser {
+    pub struct EParser {
         _priv: (),
     }
 
-    impl Default for SParser { fn default() -> Self { Self::new() } }
-    impl SParser {
-        pub fn new() -> SParser {
-            SParser {
+    impl Default for EParser { fn default() -> Self { Self::new() } }
+    impl EParser {
+        pub fn new() -> EParser {
+            EParser {
                 _priv: (),
             }
         }
@@ -52,7 +52,7 @@ mod __parse__S {
                 (Some(__lookahead), _) => {
                     Err(__lalrpop_util::ParseError::ExtraToken { token: __lookahead })
                 }
-                (None, __Nonterminal::____S((_, __nt, _))) => {
+                (None, __Nonterminal::____E((_, __nt, _))) => {
                     Ok(__nt)
                 }
                 _ => unreachable!(),
@@ -66,12 +66,9 @@ mod __parse__S {
         _40L((i64, i64, i64)),
         _40R((i64, i64, i64)),
         E((i64, Tree, i64)),
-        E1((i64, Tree, i64)),
-        E2((i64, Tree, i64)),
-        E3((i64, Tree, i64)),
-        P0((i64, Tree, i64)),
-        S((i64, Tree, i64)),
-        ____S((i64, Tree, i64)),
+        F((i64, Tree, i64)),
+        T((i64, Tree, i64)),
+        ____E((i64, Tree, i64)),
     }
 
     fn __state0<
@@ -84,39 +81,19 @@ mod __parse__S {
     {
         let mut __result: (Option<(i64, Tok, i64)>, __Nonterminal<>);
         match __lookahead {
-            Some((__loc1, __tok @ Tok('k', _, _, _), __loc2)) => {
+            Some((__loc1, __tok @ Tok('c', _, _, _), __loc2)) => {
                 let __sym0 = (__loc1, (__tok), __loc2);
                 __result = __state1(__tokens, __sym0, core::marker::PhantomData::<()>)?;
             }
             Some((__loc1, __tok @ Tok('e', _, _, _), __loc2)) => {
                 let __sym0 = (__loc1, (__tok), __loc2);
-                __result = __state14(__tokens, __sym0, core::marker::PhantomData::<()>)?;
-            }
-            Some((__loc1, __tok @ Tok('f', _, _, _), __loc2)) => {
-                let __sym0 = (__loc1, (__tok), __loc2);
-                __result = __state15(__tokens, __sym0, core::marker::PhantomData::<()>)?;
-            }
-            Some((__loc1, __tok @ Tok('g', _, _, _), __loc2)) => {
-                let __sym0 = (__loc1, (__tok), __loc2);
-                __result = __state2(__tokens, __sym0, core::marker::PhantomData::<()>)?;
-            }
-            Some((__loc1, __tok @ Tok('i', _, _, _), __loc2)) => {
-                let __sym0 = (__loc1, (__tok), __loc2);
-                __result = __state3(__tokens, __sym0, core::marker::PhantomData::<()>)?;
-            }
-            Some((__loc1, __tok @ Tok('a', _, _, _), __loc2)) => {
-                let __sym0 = (__loc1, (__tok), __loc2);
-                __result = __state4(__tokens, __sym0, core::marker::PhantomData::<()>)?;
+                __result = __state7(__tokens, __sym0, core::marker::PhantomData::<()>)?;
             }
             _ => {
                 #[allow(clippy::needless_raw_string_hashes)]
                 let __expected = alloc::vec![
-                    r###""w""###.to_string(),
-                    r###""t11""###.to_string(),
-                    r###""t12""###.to_string(),
-                    r###""t7""###.to_string(),
-                    r###""t9""###.to_string(),
-                    r###""lp0""###.to_string(),
+                    r###""(""###.to_string(),
+                    r###""x""###.to_string(),
                 ];
                 return Err(
                     match __lookahead {
@@ -142,22 +119,13 @@ mod __parse__S {
             let (__lookahead, __nt) = __result;
             match __nt {
                 __Nonterminal::E(__sym0) => {
-                    __result = __state8(__tokens, __lookahead, __sym0, core::marker::PhantomData::<()>)?;
+                    __result = __state4(__tokens, __lookahead, __sym0, core::marker::PhantomData::<()>)?;
                 }
-                __Nonterminal::E1(__sym0) => {
-                    __result = __state9(__tokens, __lookahead, __sym0, core::marker::PhantomData::<()>)?;
+                __Nonterminal::F(__sym0) => {
+                    __result = __state5(__tokens, __lookahead, __sym0, core::marker::PhantomData::<()>)?;
                 }
-                __Nonterminal::E2(__sym0) => {
-                    __result = __state10(__tokens, __lookahead, __sym0, core::marker::PhantomData::<()>)?;
-                }
-                __Nonterminal::E3(__sym0) => {
-                    __result = __state11(__tokens, __lookahead, __sym0, core::marker::PhantomData::<()>)?;
-                }
-                __Nonterminal::P0(__sym0) => {
-                    __result = __state12(__tokens, __lookahead, __sym0, core::marker::PhantomData::<()>)?;
-                }
-                __Nonterminal::S(__sym0) => {
-                    __result = __state13(__tokens, __lookahead, __sym0, core::marker::PhantomData::<()>)?;
+                __Nonterminal::T(__sym0) => {
+                    __result = __state6(__tokens, __lookahead, __sym0, core::marker::PhantomData::<()>)?;
                 }
                 _ => {
                     return Ok((__lookahead, __nt));
@@ -180,35 +148,21 @@ mod __parse__S {
             Some(Err(e)) => return Err(e),
             None => None,
         };
+        let __sym0 = &mut Some(__sym0);
         match __lookahead {
-            Some((__loc1, __tok @ Tok('k', _, _, _), __loc2)) => {
+            Some((__loc1, __tok @ Tok('c', _, _, _), __loc2)) => {
                 let __sym1 = (__loc1, (__tok), __loc2);
                 __result = __state1(__tokens, __sym1, core::marker::PhantomData::<()>)?;
             }
             Some((__loc1, __tok @ Tok('e', _, _, _), __loc2)) => {
                 let __sym1 = (__loc1, (__tok), __loc2);
-                __result = __state14(__tokens, __sym1, core::marker::PhantomData::<()>)?;
-            }
-            Some((__loc1, __tok @ Tok('f', _, _, _), __loc2)) => {
-                let __sym1 = (__loc1, (__tok), __loc2);
-                __result = __state15(__tokens, __sym1, core::marker::PhantomData::<()>)?;
-            }
-            Some((__loc1, __tok @ Tok('g', _, _, _), __loc2)) => {
-                let __sym1 = (__loc1, (__tok), __loc2);
-                __result = __state2(__tokens, __sym1, core::marker::PhantomData::<()>)?;
-            }
-            Some((__loc1, __tok @ Tok('i', _, _, _), __loc2)) => {
-                let __sym1 = (__loc1, (__tok), __loc2);
-                __result = __state3(__tokens, __sym1, core::marker::PhantomData::<()>)?;
+                __result = __state7(__tokens, __sym1, core::marker::PhantomData::<()>)?;
             }
             _ => {
                 #[allow(clippy::needless_raw_string_hashes)]
                 let __expected = alloc::vec![
-                    r###""t11""###.to_string(),
-                    r###""t12""###.to_string(),
-                    r###""t7""###.to_string(),
-                    r###""t9""###.to_string(),
-                    r###""lp0""###.to_string(),
+                    r###""(""###.to_string(),
+                    r###""x""###.to_string(),
                 ];
                 return Err(
                     match __lookahead {
@@ -219,7 +173,11 @@ mod __parse__S {
                             }
                         }
                         None => {
-                            let __location = __sym0.2.clone();
+                            let __location = 
+                            __sym0.as_ref().map(|sym| sym.2.clone()).unwrap_or_else(|| {
+                                Default::default()
+                            })
+                            ;
                             __lalrpop_util::ParseError::UnrecognizedEof {
                                 location: __location,
                                 expected: __expected,
@@ -231,23 +189,19 @@ mod __parse__S {
         }
         #[allow(clippy::never_loop)]
         loop {
+            if __sym0.is_none() {
+                return Ok(__result);
+            }
             let (__lookahead, __nt) = __result;
             match __nt {
                 __Nonterminal::E(__sym1) => {
-                    __result = __state17(__tokens, __lookahead, __sym0, __sym1, core::marker::PhantomData::<()>)?;
-                    return Ok(__result);
+                    __result = __state8(__tokens, __lookahead, __sym0, __sym1, core::marker::PhantomData::<()>)?;
                 }
-                __Nonterminal::E1(__sym1) => {
-                    __result = __state9(__tokens, __lookahead, __sym1, core::marker::PhantomData::<()>)?;
+                __Nonterminal::F(__sym1) => {
+                    __result = __state5(__tokens, __lookahead, __sym1, core::marker::PhantomData::<()>)?;
                 }
-                __Nonterminal::E2(__sym1) => {
-                    __result = __state10(__tokens, __lookahead, __sym1, core::marker::PhantomData::<()>)?;
-                }
-                __Nonterminal::E3(__sym1) => {
-                    __result = __state11(__tokens, __lookahead, __sym1, core::marker::PhantomData::<()>)?;
-                }
-                __Nonterminal::P0(__sym1) => {
-                    __result = __state12(__tokens, __lookahead, __sym1, core::marker::PhantomData::<()>)?;
+                __Nonterminal::T(__sym1) => {
+                    __result = __state6(__tokens, __lookahead, __sym1, core::marker::PhantomData::<()>)?;
                 }
                 _ => {
                     return Ok((__lookahead, __nt));
@@ -260,7 +214,8 @@ mod __parse__S {
         __TOKENS: Iterator<Item=Result<(i64, Tok, i64),__lalrpop_util::ParseError<i64, Tok, u64>>>,
     >(
         __tokens: &mut __TOKENS,
-        __sym0: (i64, Tok, i64),
+        __sym0: (i64, Tree, i64),
+        __sym1: (i64, Tok, i64),
         _: core::marker::PhantomData<()>,
     ) -> Result<(Option<(i64, Tok, i64)>, __Nonterminal<>), __lalrpop_util::ParseError<i64, Tok, u64>>
     {
@@ -270,25 +225,22 @@ mod __parse__S {
             Some(Err(e)) => return Err(e),
             None => None,
         };
+        let __sym0 = &mut Some(__sym0);
+        let __sym1 = &mut Some(__sym1);
         match __lookahead {
+            Some((__loc1, __tok @ Tok('c', _, _, _), __loc2)) => {
+                let __sym2 = (__loc1, (__tok), __loc2);
+                __result = __state1(__tokens, __sym2, core::marker::PhantomData::<()>)?;
+            }
             Some((__loc1, __tok @ Tok('e', _, _, _), __loc2)) => {
-                let __sym1 = (__loc1, (__tok), __loc2);
-                __result = __state14(__tokens, __sym1, core::marker::PhantomData::<()>)?;
-            }
-            Some((__loc1, __tok @ Tok('f', _, _, _), __loc2)) => {
-                let __sym1 = (__loc1, (__tok), __loc2);
-                __result = __state15(__tokens, __sym1, core::marker::PhantomData::<()>)?;
-            }
-            Some((__loc1, __tok @ Tok('g', _, _, _), __loc2)) => {
-                let __sym1 = (__loc1, (__tok), __loc2);
-                __result = __state2(__tokens, __sym1, core::marker::PhantomData::<()>)?;
+                let __sym2 = (__loc1, (__tok), __loc2);
+                __result = __state7(__tokens, __sym2, core::marker::PhantomData::<()>)?;
             }
             _ => {
                 #[allow(clippy::needless_raw_string_hashes)]
                 let __expected = alloc::vec![
-                    r###""t11""###.to_string(),
-                    r###""t12""###.to_string(),
-                    r###""t7""###.to_string(),
+                    r###""(""###.to_string(),
+                    r###""x""###.to_string(),
                 ];
                 return Err(
                     match __lookahead {
@@ -299,7 +251,13 @@ mod __parse__S {
                             }
                         }
                         None => {
-                            let __location = __sym0.2.clone();
+                            let __location = 
+                            __sym1.as_ref().map(|sym| sym.2.clone()).unwrap_or_else(|| {
+                                __sym0.as_ref().map(|sym| sym.2.clone()).unwrap_or_else(|| {
+                                    Default::default()
+                                })
+                            })
+                            ;
                             __lalrpop_util::ParseError::UnrecognizedEof {
                                 location: __location,
                                 expected: __expected,
@@ -311,14 +269,16 @@ mod __parse__S {
         }
         #[allow(clippy::never_loop)]
         loop {
+            if __sym1.is_none() {
+                return Ok(__result);
+            }
             let (__lookahead, __nt) = __result;
             match __nt {
-                __Nonterminal::E1(__sym1) => {
-                    __result = __state9(__tokens, __lookahead, __sym1, core::marker::PhantomData::<()>)?;
+                __Nonterminal::F(__sym2) => {
+                    __result = __state5(__tokens, __lookahead, __sym2, core::marker::PhantomData::<()>)?;
                 }
-                __Nonterminal::E2(__sym1) => {
-                    __result = __state18(__tokens, __lookahead, __sym0, __sym1, core::marker::PhantomData::<()>)?;
-                    return Ok(__result);
+                __Nonterminal::T(__sym2) => {
+                    __result = __state9(__tokens, __lookahead, __sym0, __sym1, __sym2, core::marker::PhantomData::<()>)?;
                 }
                 _ => {
                     return Ok((__lookahead, __nt));
@@ -328,186 +288,6 @@ mod __parse__S {
     }
 
     fn __state3<
-        __TOKENS: Iterator<Item=Result<(i64, Tok, i64),__lalrpop_util::ParseError<i64, Tok, u64>>>,
-    >(
-        __tokens: &mut __TOKENS,
-        __sym0: (i64, Tok, i64),
-        _: core::marker::PhantomData<()>,
-    ) -> Result<(Option<(i64, Tok, i64)>, __Nonterminal<>), __lalrpop_util::ParseError<i64, Tok, u64>>
-    {
-        let mut __result: (Option<(i64, Tok, i64)>, __Nonterminal<>);
-        let __lookahead = match __tokens.next() {
-            Some(Ok(v)) => Some(v),
-            Some(Err(e)) => return Err(e),
-            None => None,
-        };
-        match __lookahead {
-            Some((__loc1, __tok @ Tok('k', _, _, _), __loc2)) => {
-                let __sym1 = (__loc1, (__tok), __loc2);
-                __result = __state1(__tokens, __sym1, core::marker::PhantomData::<()>)?;
-            }
-            Some((__loc1, __tok @ Tok('e', _, _, _), __loc2)) => {
-                let __sym1 = (__loc1, (__tok), __loc2);
-                __result = __state14(__tokens, __sym1, core::marker::PhantomData::<()>)?;
-            }
-            Some((__loc1, __tok @ Tok('f', _, _, _), __loc2)) => {
-                let __sym1 = (__loc1, (__tok), __loc2);
-                __result = __state15(__tokens, __sym1, core::marker::PhantomData::<()>)?;
-            }
-            Some((__loc1, __tok @ Tok('g', _, _, _), __loc2)) => {
-                let __sym1 = (__loc1, (__tok), __loc2);
-                __result = __state2(__tokens, __sym1, core::marker::PhantomData::<()>)?;
-            }
-            Some((__loc1, __tok @ Tok('i', _, _, _), __loc2)) => {
-                let __sym1 = (__loc1, (__tok), __loc2);
-                __result = __state3(__tokens, __sym1, core::marker::PhantomData::<()>)?;
-            }
-            _ => {
-                #[allow(clippy::needless_raw_string_hashes)]
-                let __expected = alloc::vec![
-                    r###""t11""###.to_string(),
-                    r###""t12""###.to_string(),
-                    r###""t7""###.to_string(),
-                    r###""t9""###.to_string(),
-                    r###""lp0""###.to_string(),
-                ];
-                return Err(
-                    match __lookahead {
-                        Some(__token) => {
-                            __lalrpop_util::ParseError::UnrecognizedToken {
-                                token: __token,
-                                expected: __expected,
-                            }
-                        }
-                        None => {
-                            let __location = __sym0.2.clone();
-                            __lalrpop_util::ParseError::UnrecognizedEof {
-                                location: __location,
-                                expected: __expected,
-                            }
-                        }
-                    }
-                )
-            }
-        }
-        #[allow(clippy::never_loop)]
-        loop {
-            let (__lookahead, __nt) = __result;
-            match __nt {
-                __Nonterminal::E(__sym1) => {
-                    __result = __state19(__tokens, __lookahead, __sym0, __sym1, core::marker::PhantomData::<()>)?;
-                    return Ok(__result);
-                }
-                __Nonterminal::E1(__sym1) => {
-                    __result = __state9(__tokens, __lookahead, __sym1, core::marker::PhantomData::<()>)?;
-                }
-                __Nonterminal::E2(__sym1) => {
-                    __result = __state10(__tokens, __lookahead, __sym1, core::marker::PhantomData::<()>)?;
-                }
-                __Nonterminal::E3(__sym1) => {
-                    __result = __state11(__tokens, __lookahead, __sym1, core::marker::PhantomData::<()>)?;
-                }
-                __Nonterminal::P0(__sym1) => {
-                    __result = __state12(__tokens, __lookahead, __sym1, core::marker::PhantomData::<()>)?;
-                }
-                _ => {
-                    return Ok((__lookahead, __nt));
-                }
-            }
-        }
-    }
-
-    fn __state4<
-        __TOKENS: Iterator<Item=Result<(i64, Tok, i64),__lalrpop_util::ParseError<i64, Tok, u64>>>,
-    >(
-        __tokens: &mut __TOKENS,
-        __sym0: (i64, Tok, i64),
-        _: core::marker::PhantomData<()>,
-    ) -> Result<(Option<(i64, Tok, i64)>, __Nonterminal<>), __lalrpop_util::ParseError<i64, Tok, u64>>
-    {
-        let mut __result: (Option<(i64, Tok, i64)>, __Nonterminal<>);
-        let __lookahead = match __tokens.next() {
-            Some(Ok(v)) => Some(v),
-            Some(Err(e)) => return Err(e),
-            None => None,
-        };
-        match __lookahead {
-            Some((__loc1, __tok @ Tok('k', _, _, _), __loc2)) => {
-                let __sym1 = (__loc1, (__tok), __loc2);
-                __result = __state1(__tokens, __sym1, core::marker::PhantomData::<()>)?;
-            }
-            Some((__loc1, __tok @ Tok('e', _, _, _), __loc2)) => {
-                let __sym1 = (__loc1, (__tok), __loc2);
-                __result = __state14(__tokens, __sym1, core::marker::PhantomData::<()>)?;
-            }
-            Some((__loc1, __tok @ Tok('f', _, _, _), __loc2)) => {
-                let __sym1 = (__loc1, (__tok), __loc2);
-                __result = __state15(__tokens, __sym1, core::marker::PhantomData::<()>)?;
-            }
-            Some((__loc1, __tok @ Tok('g', _, _, _), __loc2)) => {
-                let __sym1 = (__loc1, (__tok), __loc2);
-                __result = __state2(__tokens, __sym1, core::marker::PhantomData::<()>)?;
-            }
-            Some((__loc1, __tok @ Tok('i', _, _, _), __loc2)) => {
-                let __sym1 = (__loc1, (__tok), __loc2);
-                __result = __state3(__tokens, __sym1, core::marker::PhantomData::<()>)?;
-            }
-            _ => {
-                #[allow(clippy::needless_raw_string_hashes)]
-                let __expected = alloc::vec![
-                    r###""t11""###.to_string(),
-                    r###""t12""###.to_string(),
-                    r###""t7""###.to_string(),
-                    r###""t9""###.to_string(),
-                    r###""lp0""###.to_string(),
-                ];
-                return Err(
-                    match __lookahead {
-                        Some(__token) => {
-                            __lalrpop_util::ParseError::UnrecognizedToken {
-                                token: __token,
-                                expected: __expected,
-                            }
-                        }
-                        None => {
-                            let __location = __sym0.2.clone();
-                            __lalrpop_util::ParseError::UnrecognizedEof {
-                                location: __location,
-                                expected: __expected,
-                            }
-                        }
-                    }
-                )
-            }
-        }
-        #[allow(clippy::never_loop)]
-        loop {
-            let (__lookahead, __nt) = __result;
-            match __nt {
-                __Nonterminal::E(__sym1) => {
-                    __result = __state20(__tokens, __lookahead, __sym0, __sym1, core::marker::PhantomData::<()>)?;
-                    return Ok(__result);
-                }
-                __Nonterminal::E1(__sym1) => {
-                    __result = __state9(__tokens, __lookahead, __sym1, core::marker::PhantomData::<()>)?;
-                }
-                __Nonterminal::E2(__sym1) => {
-                    __result = __state10(__tokens, __lookahead, __sym1, core::marker::PhantomData::<()>)?;
-                }
-                __Nonterminal::E3(__sym1) => {
-                    __result = __state11(__tokens, __lookahead, __sym1, core::marker::PhantomData::<()>)?;
-                }
-                __Nonterminal::P0(__sym1) => {
-                    __result = __state12(__tokens, __lookahead, __sym1, core::marker::PhantomData::<()>)?;
-                }
-                _ => {
-                    return Ok((__lookahead, __nt));
-                }
-            }
-        }
-    }
-
-    fn __state5<
         __TOKENS: Iterator<Item=Result<(i64, Tok, i64),__lalrpop_util::ParseError<i64, Tok, u64>>>,
     >(
         __tokens: &mut __TOKENS,
@@ -523,24 +303,19 @@ mod __parse__S {
             None => None,
         };
         match __lookahead {
+            Some((__loc1, __tok @ Tok('c', _, _, _), __loc2)) => {
+                let __sym2 = (__loc1, (__tok), __loc2);
+                __result = __state1(__tokens, __sym2, core::marker::PhantomData::<()>)?;
+            }
             Some((__loc1, __tok @ Tok('e', _, _, _), __loc2)) => {
                 let __sym2 = (__loc1, (__tok), __loc2);
-                __result = __state14(__tokens, __sym2, core::marker::PhantomData::<()>)?;
-            }
-            Some((__loc1, __tok @ Tok('f', _, _, _), __loc2)) => {
-                let __sym2 = (__loc1, (__tok), __loc2);
-                __result = __state15(__tokens, __sym2, core::marker::PhantomData::<()>)?;
-            }
-            Some((__loc1, __tok @ Tok('g', _, _, _), __loc2)) => {
-                let __sym2 = (__loc1, (__tok), __loc2);
-                __result = __state2(__tokens, __sym2, core::marker::PhantomData::<()>)?;
+                __result = __state7(__tokens, __sym2, core::marker::PhantomData::<()>)?;
             }
             _ => {
                 #[allow(clippy::needless_raw_string_hashes)]
                 let __expected = alloc::vec![
-                    r###""t11""###.to_string(),
-                    r###""t12""###.to_string(),
-                    r###""t7""###.to_string(),
+                    r###""(""###.to_string(),
+                    r###""x""###.to_string(),
                 ];
                 return Err(
                     match __lookahead {
@@ -565,11 +340,8 @@ mod __parse__S {
         loop {
             let (__lookahead, __nt) = __result;
             match __nt {
-                __Nonterminal::E1(__sym2) => {
-                    __result = __state9(__tokens, __lookahead, __sym2, core::marker::PhantomData::<()>)?;
-                }
-                __Nonterminal::E2(__sym2) => {
-                    __result = __state21(__tokens, __lookahead, __sym0, __sym1, __sym2, core::marker::PhantomData::<()>)?;
+                __Nonterminal::F(__sym2) => {
+                    __result = __state10(__tokens, __lookahead, __sym0, __sym1, __sym2, core::marker::PhantomData::<()>)?;
                     return Ok(__result);
                 }
                 _ => {
@@ -579,181 +351,7 @@ mod __parse__S {
         }
     }
 
-    fn __state6<
-        __TOKENS: Iterator<Item=Result<(i64, Tok, i64),__lalrpop_util::ParseError<i64, Tok, u64>>>,
-    >(
-        __tokens: &mut __TOKENS,
-        __sym0: (i64, Tok, i64),
-        __sym1: (i64, Tree, i64),
-        __sym2: (i64, Tok, i64),
-        _: core::marker::PhantomData<()>,
-    ) -> Result<(Option<(i64, Tok, i64)>, __Nonterminal<>), __lalrpop_util::ParseError<i64, Tok, u64>>
-    {
-        let mut __result: (Option<(i64, Tok, i64)>, __Nonterminal<>);
-        let __lookahead = match __tokens.next() {
-            Some(Ok(v)) => Some(v),
-            Some(Err(e)) => return Err(e),
-            None => None,
-        };
-        match __lookahead {
-            Some((__loc1, __tok @ Tok('k', _, _, _), __loc2)) => {
-                let __sym3 = (__loc1, (__tok), __loc2);
-                __result = __state1(__tokens, __sym3, core::marker::PhantomData::<()>)?;
-            }
-            Some((__loc1, __tok @ Tok('e', _, _, _), __loc2)) => {
-                let __sym3 = (__loc1, (__tok), __loc2);
-                __result = __state14(__tokens, __sym3, core::marker::PhantomData::<()>)?;
-            }
-            Some((__loc1, __tok @ Tok('f', _, _, _), __loc2)) => {
-                let __sym3 = (__loc1, (__tok), __loc2);
-                __result = __state15(__tokens, __sym3, core::marker::PhantomData::<()>)?;
-            }
-            Some((__loc1, __tok @ Tok('g', _, _, _), __loc2)) => {
-                let __sym3 = (__loc1, (__tok), __loc2);
-                __result = __state2(__tokens, __sym3, core::marker::PhantomData::<()>)?;
-            }
-            Some((__loc1, __tok @ Tok('i', _, _, _), __loc2)) => {
-                let __sym3 = (__loc1, (__tok), __loc2);
-                __result = __state3(__tokens, __sym3, core::marker::PhantomData::<()>)?;
-            }
-            Some((__loc1, __tok @ Tok('a', _, _, _), __loc2)) => {
-                let __sym3 = (__loc1, (__tok), __loc2);
-                __result = __state4(__tokens, __sym3, core::marker::PhantomData::<()>)?;
-            }
-            _ => {
-                #[allow(clippy::needless_raw_string_hashes)]
-                let __expected = alloc::vec![
-                    r###""w""###.to_string(),
-                    r###""t11""###.to_string(),
-                    r###""t12""###.to_string(),
-                    r###""t7""###.to_string(),
-                    r###""t9""###.to_string(),
-                    r###""lp0""###.to_string(),
-                ];
-                return Err(
-                    match __lookahead {
-                        Some(__token) => {
-                            __lalrpop_util::ParseError::UnrecognizedToken {
-                                token: __token,
-                                expected: __expected,
-                            }
-                        }
-                        None => {
-                            let __location = __sym2.2.clone();
-                            __lalrpop_util::ParseError::UnrecognizedEof {
-                                location: __location,
-                                expected: __expected,
-                            }
-                        }
-                    }
-                )
-            }
-        }
-        #[allow(clippy::never_loop)]
-        loop {
-            let (__lookahead, __nt) = __result;
-            match __nt {
-                __Nonterminal::E(__sym3) => {
-                    __result = __state8(__tokens, __lookahead, __sym3, core::marker::PhantomData::<()>)?;
-                }
-                __Nonterminal::E1(__sym3) => {
-                    __result = __state9(__tokens, __lookahead, __sym3, core::marker::PhantomData::<()>)?;
-                }
-                __Nonterminal::E2(__sym3) => {
-                    __result = __state10(__tokens, __lookahead, __sym3, core::marker::PhantomData::<()>)?;
-                }
-                __Nonterminal::E3(__sym3) => {
-                    __result = __state11(__tokens, __lookahead, __sym3, core::marker::PhantomData::<()>)?;
-                }
-                __Nonterminal::P0(__sym3) => {
-                    __result = __state12(__tokens, __lookahead, __sym3, core::marker::PhantomData::<()>)?;
-                }
-                __Nonterminal::S(__sym3) => {
-                    __result = __state25(__tokens, __lookahead, __sym0, __sym1, __sym2, __sym3, core::marker::PhantomData::<()>)?;
-                    return Ok(__result);
-                }
-                _ => {
-                    return Ok((__lookahead, __nt));
-                }
-            }
-        }
-    }
-
-    fn __state7<
-        __TOKENS: Iterator<Item=Result<(i64, Tok, i64),__lalrpop_util::ParseError<i64, Tok, u64>>>,
-    >(
-        __tokens: &mut __TOKENS,
-        __sym0: (i64, Tree, i64),
-        __sym1: (i64, Tok, i64),
-        __sym2: (i64, Tree, i64),
-        __sym3: (i64, Tok, i64),
-        _: core::marker::PhantomData<()>,
-    ) -> Result<(Option<(i64, Tok, i64)>, __Nonterminal<>), __lalrpop_util::ParseError<i64, Tok, u64>>
-    {
-        let mut __result: (Option<(i64, Tok, i64)>, __Nonterminal<>);
-        let __lookahead = match __tokens.next() {
-            Some(Ok(v)) => Some(v),
-            Some(Err(e)) => return Err(e),
-            None => None,
-        };
-        match __lookahead {
-            Some((__loc1, __tok @ Tok('e', _, _, _), __loc2)) => {
-                let __sym4 = (__loc1, (__tok), __loc2);
-                __result = __state14(__tokens, __sym4, core::marker::PhantomData::<()>)?;
-            }
-            Some((__loc1, __tok @ Tok('f', _, _, _), __loc2)) => {
-                let __sym4 = (__loc1, (__tok), __loc2);
-                __result = __state15(__tokens, __sym4, core::marker::PhantomData::<()>)?;
-            }
-            Some((__loc1, __tok @ Tok('g', _, _, _), __loc2)) => {
-                let __sym4 = (__loc1, (__tok), __loc2);
-                __result = __state2(__tokens, __sym4, core::marker::PhantomData::<()>)?;
-            }
-            _ => {
-                #[allow(clippy::needless_raw_string_hashes)]
-                let __expected = alloc::vec![
-                    r###""t11""###.to_string(),
-                    r###""t12""###.to_string(),
-                    r###""t7""###.to_string(),
-                ];
-                return Err(
-                    match __lookahead {
-                        Some(__token) => {
-                            __lalrpop_util::ParseError::UnrecognizedToken {
-                                token: __token,
-                                expected: __expected,
-                            }
-                        }
-                        None => {
-                            let __location = __sym3.2.clone();
-                            __lalrpop_util::ParseError::UnrecognizedEof {
-                                location: __location,
-                                expected: __expected,
-                            }
-                        }
-                    }
-                )
-            }
-        }
-        #[allow(clippy::never_loop)]
-        loop {
-            let (__lookahead, __nt) = __result;
-            match __nt {
-                __Nonterminal::E1(__sym4) => {
-                    __result = __state9(__tokens, __lookahead, __sym4, core::marker::PhantomData::<()>)?;
-                }
-                __Nonterminal::E2(__sym4) => {
-                    __result = __state26(__tokens, __lookahead, __sym0, __sym1, __sym2, __sym3, __sym4, core::marker::PhantomData::<()>)?;
-                    return Ok(__result);
-                }
-                _ => {
-                    return Ok((__lookahead, __nt));
-                }
-            }
-        }
-    }
-
-    fn __state8<
+    fn __state4<
         __TOKENS: Iterator<Item=Result<(i64, Tok, i64),__lalrpop_util::ParseError<i64, Tok, u64>>>,
     >(
         __tokens: &mut __TOKENS,
@@ -764,11 +362,16 @@ mod __parse__S {
     {
         let mut __result: (Option<(i64, Tok, i64)>, __Nonterminal<>);
         match __lookahead {
+            Some((__loc1, __tok @ Tok('a', _, _, _), __loc2)) => {
+                let __sym1 = (__loc1, (__tok), __loc2);
+                __result = __state2(__tokens, __sym0, __sym1, core::marker::PhantomData::<()>)?;
+                return Ok(__result);
+            }
             None => {
                 let __start = __sym0.0.clone();
                 let __end = __sym0.2.clone();
-                let __nt = super::__action34::<>(__sym0);
-                let __nt = __Nonterminal::S((
+                let __nt = super::__action0::<>(__sym0);
+                let __nt = __Nonterminal::____E((
                     __start,
                     __nt,
                     __end,
@@ -779,6 +382,7 @@ mod __parse__S {
             _ => {
                 #[allow(clippy::needless_raw_string_hashes)]
                 let __expected = alloc::vec![
+                    r###""+""###.to_string(),
                 ];
                 return Err(
                     match __lookahead {
@@ -790,6 +394,226 @@ mod __parse__S {
                         }
                         None => {
                             let __location = __sym0.2.clone();
+                            __lalrpop_util::ParseError::UnrecognizedEof {
+                                location: __location,
+                                expected: __expected,
+                            }
+                        }
+                    }
+                )
+            }
+        }
+    }
+
+    fn __state5<
+        __TOKENS: Iterator<Item=Result<(i64, Tok, i64),__lalrpop_util::ParseError<i64, Tok, u64>>>,
+    >(
+        __tokens: &mut __TOKENS,
+        __lookahead: Option<(i64, Tok, i64)>,
+        __sym0: (i64, Tree, i64),
+        _: core::marker::PhantomData<()>,
+    ) -> Result<(Option<(i64, Tok, i64)>, __Nonterminal<>), __lalrpop_util::ParseError<i64, Tok, u64>>
+    {
+        let mut __result: (Option<(i64, Tok, i64)>, __Nonterminal<>);
+        match __lookahead {
+            Some((_, Tok('a', _, _, _), _)) |
+            Some((_, Tok('b', _, _, _), _)) |
+            Some((_, Tok('d', _, _, _), _)) |
+            None => {
+                let __start = __sym0.0.clone();
+                let __end = __sym0.2.clone();
+                let __nt = super::__action20::<>(__sym0);
+                let __nt = __Nonterminal::T((
+                    __start,
+                    __nt,
+                    __end,
+                ));
+                __result = (__lookahead, __nt);
+                return Ok(__result);
+            }
+            _ => {
+                #[allow(clippy::needless_raw_string_hashes)]
+                let __expected = alloc::vec![
+                    r###""+""###.to_string(),
+                    r###""*""###.to_string(),
+                    r###"")""###.to_string(),
+                ];
+                return Err(
+                    match __lookahead {
+                        Some(__token) => {
+                            __lalrpop_util::ParseError::UnrecognizedToken {
+                                token: __token,
+                                expected: __expected,
+                            }
+                        }
+                        None => {
+                            let __location = __sym0.2.clone();
+                            __lalrpop_util::ParseError::UnrecognizedEof {
+                                location: __location,
+                                expected: __expected,
+                            }
+                        }
+                    }
+                )
+            }
+        }
+    }
+
+    fn __state6<
+        __TOKENS: Iterator<Item=Result<(i64, Tok, i64),__lalrpop_util::ParseError<i64, Tok, u64>>>,
+    >(
+        __tokens: &mut __TOKENS,
+        __lookahead: Option<(i64, Tok, i64)>,
+        __sym0: (i64, Tree, i64),
+        _: core::marker::PhantomData<()>,
+    ) -> Result<(Option<(i64, Tok, i64)>, __Nonterminal<>), __lalrpop_util::ParseError<i64, Tok, u64>>
+    {
+        let mut __result: (Option<(i64, Tok, i64)>, __Nonterminal<>);
+        match __lookahead {
+            Some((__loc1, __tok @ Tok('b', _, _, _), __loc2)) => {
+                let __sym1 = (__loc1, (__tok), __loc2);
+                __result = __state3(__tokens, __sym0, __sym1, core::marker::PhantomData::<()>)?;
+                return Ok(__result);
+            }
+            Some((_, Tok('a', _, _, _), _)) |
+            Some((_, Tok('d', _, _, _), _)) |
+            None => {
+                let __start = __sym0.0.clone();
+                let __end = __sym0.2.clone();
+                let __nt = super::__action16::<>(__sym0);
+                let __nt = __Nonterminal::E((
+                    __start,
+                    __nt,
+                    __end,
+                ));
+                __result = (__lookahead, __nt);
+                return Ok(__result);
+            }
+            _ => {
+                #[allow(clippy::needless_raw_string_hashes)]
+                let __expected = alloc::vec![
+                    r###""+""###.to_string(),
+                    r###""*""###.to_string(),
+                    r###"")""###.to_string(),
+                ];
+                return Err(
+                    match __lookahead {
+                        Some(__token) => {
+                            __lalrpop_util::ParseError::UnrecognizedToken {
+                                token: __token,
+                                expected: __expected,
+                            }
+                        }
+                        None => {
+                            let __location = __sym0.2.clone();
+                            __lalrpop_util::ParseError::UnrecognizedEof {
+                                location: __location,
+                                expected: __expected,
+                            }
+                        }
+                    }
+                )
+            }
+        }
+    }
+
+    fn __state7<
+        __TOKENS: Iterator<Item=Result<(i64, Tok, i64),__lalrpop_util::ParseError<i64, Tok, u64>>>,
+    >(
+        __tokens: &mut __TOKENS,
+        __sym0: (i64, Tok, i64),
+        _: core::marker::PhantomData<()>,
+    ) -> Result<(Option<(i64, Tok, i64)>, __Nonterminal<>), __lalrpop_util::ParseError<i64, Tok, u64>>
+    {
+        let mut __result: (Option<(i64, Tok, i64)>, __Nonterminal<>);
+        let __lookahead = match __tokens.next() {
+            Some(Ok(v)) => Some(v),
+            Some(Err(e)) => return Err(e),
+            None => None,
+        };
+        match __lookahead {
+            Some((_, Tok('a', _, _, _), _)) |
+            Some((_, Tok('b', _, _, _), _)) |
+            Some((_, Tok('d', _, _, _), _)) |
+            None => {
+                let __start = __sym0.0.clone();
+                let __end = __sym0.2.clone();
+                let __nt = super::__action18::<>(__sym0);
+                let __nt = __Nonterminal::F((
+                    __start,
+                    __nt,
+                    __end,
+                ));
+                __result = (__lookahead, __nt);
+                return Ok(__result);
+            }
+            _ => {
+                #[allow(clippy::needless_raw_string_hashes)]
+                let __expected = alloc::vec![
+                    r###""+""###.to_string(),
+                    r###""*""###.to_string(),
+                    r###"")""###.to_string(),
+                ];
+                return Err(
+                    match __lookahead {
+                        Some(__token) => {
+                            __lalrpop_util::ParseError::UnrecognizedToken {
+                                token: __token,
+                                expected: __expected,
+                            }
+                        }
+                        None => {
+                            let __location = __sym0.2.clone();
+                            __lalrpop_util::ParseError::UnrecognizedEof {
+                                location: __location,
+                                expected: __expected,
+                            }
+                        }
+                    }
+                )
+            }
+        }
+    }
+
+    fn __state8<
+        __TOKENS: Iterator<Item=Result<(i64, Tok, i64),__lalrpop_util::ParseError<i64, Tok, u64>>>,
+    >(
+        __tokens: &mut __TOKENS,
+        __lookahead: Option<(i64, Tok, i64)>,
+        __sym0: &mut Option<(i64, Tok, i64)>,
+        __sym1: (i64, Tree, i64),
+        _: core::marker::PhantomData<()>,
+    ) -> Result<(Option<(i64, Tok, i64)>, __Nonterminal<>), __lalrpop_util::ParseError<i64, Tok, u64>>
+    {
+        let mut __result: (Option<(i64, Tok, i64)>, __Nonterminal<>);
+        match __lookahead {
+            Some((__loc1, __tok @ Tok('d', _, _, _), __loc2)) => {
+                let __sym2 = (__loc1, (__tok), __loc2);
+                let __sym0 = __sym0.take().unwrap();
+                __result = __state11(__tokens, __sym0, __sym1, __sym2, core::marker::PhantomData::<()>)?;
+                return Ok(__result);
+            }
+            Some((__loc1, __tok @ Tok('a', _, _, _), __loc2)) => {
+                let __sym2 = (__loc1, (__tok), __loc2);
+                __result = __state2(__tokens, __sym1, __sym2, core::marker::PhantomData::<()>)?;
+                return Ok(__result);
+            }
+            _ => {
+                #[allow(clippy::needless_raw_string_hashes)]
+                let __expected = alloc::vec![
+                    r###""+""###.to_string(),
+                    r###"")""###.to_string(),
+                ];
+                return Err(
+                    match __lookahead {
+                        Some(__token) => {
+                            __lalrpop_util::ParseError::UnrecognizedToken {
+                                token: __token,
+                                expected: __expected,
+                            }
+                        }
+                        None => {
+                            let __location = __sym1.2.clone();
                             __lalrpop_util::ParseError::UnrecognizedEof {
                                 location: __location,
                                 expected: __expected,
@@ -806,24 +630,28 @@ mod __parse__S {
     >(
         __tokens: &mut __TOKENS,
         __lookahead: Option<(i64, Tok, i64)>,
-        __sym0: (i64, Tree, i64),
+        __sym0: &mut Option<(i64, Tree, i64)>,
+        __sym1: &mut Option<(i64, Tok, i64)>,
+        __sym2: (i64, Tree, i64),
         _: core::marker::PhantomData<()>,
     ) -> Result<(Option<(i64, Tok, i64)>, __Nonterminal<>), __lalrpop_util::ParseError<i64, Tok, u64>>
     {
         let mut __result: (Option<(i64, Tok, i64)>, __Nonterminal<>);
         match __lookahead {
+            Some((__loc1, __tok @ Tok('b', _, _, _), __loc2)) => {
+                let __sym3 = (__loc1, (__tok), __loc2);
+                __result = __state3(__tokens, __sym2, __sym3, core::marker::PhantomData::<()>)?;
+                return Ok(__result);
+            }
             Some((_, Tok('a', _, _, _), _)) |
-            Some((_, Tok('b', _, _, _), _)) |
-            Some((_, Tok('c', _, _, _), _)) |
             Some((_, Tok('d', _, _, _), _)) |
-            Some((_, Tok('h', _, _, _), _)) |
-            Some((_, Tok('j', _, _, _), _)) |
-            Some((_, Tok('l', _, _, _), _)) |
             None => {
+                let __sym0 = __sym0.take().unwrap();
+                let __sym1 = __sym1.take().unwrap();
                 let __start = __sym0.0.clone();
-                let __end = __sym0.2.clone();
-                let __nt = super::__action7::<>(__sym0);
-                let __nt = __Nonterminal::E2((
+                let __end = __sym2.2.clone();
+                let __nt = super::__action15::<>(__sym0, __sym1, __sym2);
+                let __nt = __Nonterminal::E((
                     __start,
                     __nt,
                     __end,
@@ -834,13 +662,9 @@ mod __parse__S {
             _ => {
                 #[allow(clippy::needless_raw_string_hashes)]
                 let __expected = alloc::vec![
-                    r###""w""###.to_string(),
-                    r###""t1""###.to_string(),
-                    r###""t2""###.to_string(),
-                    r###""t3""###.to_string(),
-                    r###""t8""###.to_string(),
-                    r###""t10""###.to_string(),
-                    r###""rp0""###.to_string(),
+                    r###""+""###.to_string(),
+                    r###""*""###.to_string(),
+                    r###"")""###.to_string(),
                 ];
                 return Err(
                     match __lookahead {
@@ -851,7 +675,7 @@ mod __parse__S {
                             }
                         }
                         None => {
-                            let __location = __sym0.2.clone();
+                            let __location = __sym2.2.clone();
                             __lalrpop_util::ParseError::UnrecognizedEof {
                                 location: __location,
                                 expected: __expected,
@@ -869,25 +693,21 @@ mod __parse__S {
         __tokens: &mut __TOKENS,
         __lookahead: Option<(i64, Tok, i64)>,
         __sym0: (i64, Tree, i64),
+        __sym1: (i64, Tok, i64),
+        __sym2: (i64, Tree, i64),
         _: core::marker::PhantomData<()>,
     ) -> Result<(Option<(i64, Tok, i64)>, __Nonterminal<>), __lalrpop_util::ParseError<i64, Tok, u64>>
     {
         let mut __result: (Option<(i64, Tok, i64)>, __Nonterminal<>);
         match __lookahead {
-            Some((__loc1, __tok @ Tok('c', _, _, _), __loc2)) => {
-                let __sym1 = (__loc1, (__tok), __loc2);
-                __result = __state5(__tokens, __sym0, __sym1, core::marker::PhantomData::<()>)?;
-                return Ok(__result);
-            }
             Some((_, Tok('a', _, _, _), _)) |
             Some((_, Tok('b', _, _, _), _)) |
-            Some((_, Tok('j', _, _, _), _)) |
-            Some((_, Tok('l', _, _, _), _)) |
+            Some((_, Tok('d', _, _, _), _)) |
             None => {
                 let __start = __sym0.0.clone();
-                let __end = __sym0.2.clone();
-                let __nt = super::__action11::<>(__sym0);
-                let __nt = __Nonterminal::E3((
+                let __end = __sym2.2.clone();
+                let __nt = super::__action19::<>(__sym0, __sym1, __sym2);
+                let __nt = __Nonterminal::T((
                     __start,
                     __nt,
                     __end,
@@ -898,11 +718,9 @@ mod __parse__S {
             _ => {
                 #[allow(clippy::needless_raw_string_hashes)]
                 let __expected = alloc::vec![
-                    r###""w""###.to_string(),
-                    r###""t1""###.to_string(),
-                    r###""t2""###.to_string(),
-                    r###""t10""###.to_string(),
-                    r###""rp0""###.to_string(),
+                    r###""+""###.to_string(),
+                    r###""*""###.to_string(),
+                    r###"")""###.to_string(),
                 ];
                 return Err(
                     match __lookahead {
@@ -913,7 +731,7 @@ mod __parse__S {
                             }
                         }
                         None => {
-                            let __location = __sym0.2.clone();
+                            let __location = __sym2.2.clone();
                             __lalrpop_util::ParseError::UnrecognizedEof {
                                 location: __location,
                                 expected: __expected,
@@ -929,579 +747,6 @@ mod __parse__S {
         __TOKENS: Iterator<Item=Result<(i64, Tok, i64),__lalrpop_util::ParseError<i64, Tok, u64>>>,
     >(
         __tokens: &mut __TOKENS,
-        __lookahead: Option<(i64, Tok, i64)>,
-        __sym0: (i64, Tree, i64),
-        _: core::marker::PhantomData<()>,
-    ) -> Result<(Option<(i64, Tok, i64)>, __Nonterminal<>), __lalrpop_util::ParseError<i64, Tok, u64>>
-    {
-        let mut __result: (Option<(i64, Tok, i64)>, __Nonterminal<>);
-        match __lookahead {
-            Some((__loc1, __tok @ Tok('b', _, _, _), __loc2)) => {
-                let __sym1 = (__loc1, (__tok), __loc2);
-                __result = __state16(__tokens, __sym0, __sym1, core::marker::PhantomData::<()>)?;
-                return Ok(__result);
-            }
-            Some((_, Tok('a', _, _, _), _)) |
-            Some((_, Tok('j', _, _, _), _)) |
-            Some((_, Tok('l', _, _, _), _)) |
-            None => {
-                let __start = __sym0.0.clone();
-                let __end = __sym0.2.clone();
-                let __nt = super::__action13::<>(__sym0);
-                let __nt = __Nonterminal::E((
-                    __start,
-                    __nt,
-                    __end,
-                ));
-                __result = (__lookahead, __nt);
-                return Ok(__result);
-            }
-            _ => {
-                #[allow(clippy::needless_raw_string_hashes)]
-                let __expected = alloc::vec![
-                    r###""w""###.to_string(),
-                    r###""t1""###.to_string(),
-                    r###""t10""###.to_string(),
-                    r###""rp0""###.to_string(),
-                ];
-                return Err(
-                    match __lookahead {
-                        Some(__token) => {
-                            __lalrpop_util::ParseError::UnrecognizedToken {
-                                token: __token,
-                                expected: __expected,
-                            }
-                        }
-                        None => {
-                            let __location = __sym0.2.clone();
-                            __lalrpop_util::ParseError::UnrecognizedEof {
-                                location: __location,
-                                expected: __expected,
-                            }
-                        }
-                    }
-                )
-            }
-        }
-    }
-
-    fn __state12<
-        __TOKENS: Iterator<Item=Result<(i64, Tok, i64),__lalrpop_util::ParseError<i64, Tok, u64>>>,
-    >(
-        __tokens: &mut __TOKENS,
-        __lookahead: Option<(i64, Tok, i64)>,
-        __sym0: (i64, Tree, i64),
-        _: core::marker::PhantomData<()>,
-    ) -> Result<(Option<(i64, Tok, i64)>, __Nonterminal<>), __lalrpop_util::ParseError<i64, Tok, u64>>
-    {
-        let mut __result: (Option<(i64, Tok, i64)>, __Nonterminal<>);
-        match __lookahead {
-            Some((_, Tok('a', _, _, _), _)) |
-            Some((_, Tok('b', _, _, _), _)) |
-            Some((_, Tok('j', _, _, _), _)) |
-            Some((_, Tok('l', _, _, _), _)) |
-            None => {
-                let __start = __sym0.0.clone();
-                let __end = __sym0.2.clone();
-                let __nt = super::__action30::<>(__sym0);
-                let __nt = __Nonterminal::E3((
-                    __start,
-                    __nt,
-                    __end,
-                ));
-                __result = (__lookahead, __nt);
-                return Ok(__result);
-            }
-            _ => {
-                #[allow(clippy::needless_raw_string_hashes)]
-                let __expected = alloc::vec![
-                    r###""w""###.to_string(),
-                    r###""t1""###.to_string(),
-                    r###""t10""###.to_string(),
-                    r###""rp0""###.to_string(),
-                ];
-                return Err(
-                    match __lookahead {
-                        Some(__token) => {
-                            __lalrpop_util::ParseError::UnrecognizedToken {
-                                token: __token,
-                                expected: __expected,
-                            }
-                        }
-                        None => {
-                            let __location = __sym0.2.clone();
-                            __lalrpop_util::ParseError::UnrecognizedEof {
-                                location: __location,
-                                expected: __expected,
-                            }
-                        }
-                    }
-                )
-            }
-        }
-    }
-
-    fn __state13<
-        __TOKENS: Iterator<Item=Result<(i64, Tok, i64),__lalrpop_util::ParseError<i64, Tok, u64>>>,
-    >(
-        __tokens: &mut __TOKENS,
-        __lookahead: Option<(i64, Tok, i64)>,
-        __sym0: (i64, Tree, i64),
-        _: core::marker::PhantomData<()>,
-    ) -> Result<(Option<(i64, Tok, i64)>, __Nonterminal<>), __lalrpop_util::ParseError<i64, Tok, u64>>
-    {
-        let mut __result: (Option<(i64, Tok, i64)>, __Nonterminal<>);
-        match __lookahead {
-            None => {
-                let __start = __sym0.0.clone();
-                let __end = __sym0.2.clone();
-                let __nt = super::__action0::<>(__sym0);
-                let __nt = __Nonterminal::____S((
-                    __start,
-                    __nt,
-                    __end,
-                ));
-                __result = (__lookahead, __nt);
-                return Ok(__result);
-            }
-            _ => {
-                #[allow(clippy::needless_raw_string_hashes)]
-                let __expected = alloc::vec![
-                ];
-                return Err(
-                    match __lookahead {
-                        Some(__token) => {
-                            __lalrpop_util::ParseError::UnrecognizedToken {
-                                token: __token,
-                                expected: __expected,
-                            }
-                        }
-                        None => {
-                            let __location = __sym0.2.clone();
-                            __lalrpop_util::ParseError::UnrecognizedEof {
-                                location: __location,
-                                expected: __expected,
-                            }
-                        }
-                    }
-                )
-            }
-        }
-    }
-
-    fn __state14<
-        __TOKENS: Iterator<Item=Result<(i64, Tok, i64),__lalrpop_util::ParseError<i64, Tok, u64>>>,
-    >(
-        __tokens: &mut __TOKENS,
-        __sym0: (i64, Tok, i64),
-        _: core::marker::PhantomData<()>,
-    ) -> Result<(Option<(i64, Tok, i64)>, __Nonterminal<>), __lalrpop_util::ParseError<i64, Tok, u64>>
-    {
-        let mut __result: (Option<(i64, Tok, i64)>, __Nonterminal<>);
-        let __lookahead = match __tokens.next() {
-            Some(Ok(v)) => Some(v),
-            Some(Err(e)) => return Err(e),
-            None => None,
-        };
-        match __lookahead {
-            Some((_, Tok('a', _, _, _), _)) |
-            Some((_, Tok('b', _, _, _), _)) |
-            Some((_, Tok('c', _, _, _), _)) |
-            Some((_, Tok('d', _, _, _), _)) |
-            Some((_, Tok('h', _, _, _), _)) |
-            Some((_, Tok('j', _, _, _), _)) |
-            Some((_, Tok('l', _, _, _), _)) |
-            None => {
-                let __start = __sym0.0.clone();
-                let __end = __sym0.2.clone();
-                let __nt = super::__action27::<>(__sym0);
-                let __nt = __Nonterminal::E1((
-                    __start,
-                    __nt,
-                    __end,
-                ));
-                __result = (__lookahead, __nt);
-                return Ok(__result);
-            }
-            _ => {
-                #[allow(clippy::needless_raw_string_hashes)]
-                let __expected = alloc::vec![
-                    r###""w""###.to_string(),
-                    r###""t1""###.to_string(),
-                    r###""t2""###.to_string(),
-                    r###""t3""###.to_string(),
-                    r###""t8""###.to_string(),
-                    r###""t10""###.to_string(),
-                    r###""rp0""###.to_string(),
-                ];
-                return Err(
-                    match __lookahead {
-                        Some(__token) => {
-                            __lalrpop_util::ParseError::UnrecognizedToken {
-                                token: __token,
-                                expected: __expected,
-                            }
-                        }
-                        None => {
-                            let __location = __sym0.2.clone();
-                            __lalrpop_util::ParseError::UnrecognizedEof {
-                                location: __location,
-                                expected: __expected,
-                            }
-                        }
-                    }
-                )
-            }
-        }
-    }
-
-    fn __state15<
-        __TOKENS: Iterator<Item=Result<(i64, Tok, i64),__lalrpop_util::ParseError<i64, Tok, u64>>>,
-    >(
-        __tokens: &mut __TOKENS,
-        __sym0: (i64, Tok, i64),
-        _: core::marker::PhantomData<()>,
-    ) -> Result<(Option<(i64, Tok, i64)>, __Nonterminal<>), __lalrpop_util::ParseError<i64, Tok, u64>>
-    {
-        let mut __result: (Option<(i64, Tok, i64)>, __Nonterminal<>);
-        let __lookahead = match __tokens.next() {
-            Some(Ok(v)) => Some(v),
-            Some(Err(e)) => return Err(e),
-            None => None,
-        };
-        match __lookahead {
-            Some((_, Tok('a', _, _, _), _)) |
-            Some((_, Tok('b', _, _, _), _)) |
-            Some((_, Tok('c', _, _, _), _)) |
-            Some((_, Tok('d', _, _, _), _)) |
-            Some((_, Tok('h', _, _, _), _)) |
-            Some((_, Tok('j', _, _, _), _)) |
-            Some((_, Tok('l', _, _, _), _)) |
-            None => {
-                let __start = __sym0.0.clone();
-                let __end = __sym0.2.clone();
-                let __nt = super::__action28::<>(__sym0);
-                let __nt = __Nonterminal::E1((
-                    __start,
-                    __nt,
-                    __end,
-                ));
-                __result = (__lookahead, __nt);
-                return Ok(__result);
-            }
-            _ => {
-                #[allow(clippy::needless_raw_string_hashes)]
-                let __expected = alloc::vec![
-                    r###""w""###.to_string(),
-                    r###""t1""###.to_string(),
-                    r###""t2""###.to_string(),
-                    r###""t3""###.to_string(),
-                    r###""t8""###.to_string(),
-                    r###""t10""###.to_string(),
-                    r###""rp0""###.to_string(),
-                ];
-                return Err(
-                    match __lookahead {
-                        Some(__token) => {
-                            __lalrpop_util::ParseError::UnrecognizedToken {
-                                token: __token,
-                                expected: __expected,
-                            }
-                        }
-                        None => {
-                            let __location = __sym0.2.clone();
-                            __lalrpop_util::ParseError::UnrecognizedEof {
-                                location: __location,
-                                expected: __expected,
-                            }
-                        }
-                    }
-                )
-            }
-        }
-    }
-
-    fn __state16<
-        __TOKENS: Iterator<Item=Result<(i64, Tok, i64),__lalrpop_util::ParseError<i64, Tok, u64>>>,
-    >(
-        __tokens: &mut __TOKENS,
-        __sym0: (i64, Tree, i64),
-        __sym1: (i64, Tok, i64),
-        _: core::marker::PhantomData<()>,
-    ) -> Result<(Option<(i64, Tok, i64)>, __Nonterminal<>), __lalrpop_util::ParseError<i64, Tok, u64>>
-    {
-        let mut __result: (Option<(i64, Tok, i64)>, __Nonterminal<>);
-        let __lookahead = match __tokens.next() {
-            Some(Ok(v)) => Some(v),
-            Some(Err(e)) => return Err(e),
-            None => None,
-        };
-        match __lookahead {
-            Some((_, Tok('a', _, _, _), _)) |
-            Some((_, Tok('b', _, _, _), _)) |
-            Some((_, Tok('j', _, _, _), _)) |
-            Some((_, Tok('l', _, _, _), _)) |
-            None => {
-                let __start = __sym0.0.clone();
-                let __end = __sym1.2.clone();
-                let __nt = super::__action31::<>(__sym0, __sym1);
-                let __nt = __Nonterminal::E3((
-                    __start,
-                    __nt,
-                    __end,
-                ));
-                __result = (__lookahead, __nt);
-                return Ok(__result);
-            }
-            _ => {
-                #[allow(clippy::needless_raw_string_hashes)]
-                let __expected = alloc::vec![
-                    r###""w""###.to_string(),
-                    r###""t1""###.to_string(),
-                    r###""t10""###.to_string(),
-                    r###""rp0""###.to_string(),
-                ];
-                return Err(
-                    match __lookahead {
-                        Some(__token) => {
-                            __lalrpop_util::ParseError::UnrecognizedToken {
-                                token: __token,
-                                expected: __expected,
-                            }
-                        }
-                        None => {
-                            let __location = __sym1.2.clone();
-                            __lalrpop_util::ParseError::UnrecognizedEof {
-                                location: __location,
-                                expected: __expected,
-                            }
-                        }
-                    }
-                )
-            }
-        }
-    }
-
-    fn __state17<
-        __TOKENS: Iterator<Item=Result<(i64, Tok, i64),__lalrpop_util::ParseError<i64, Tok, u64>>>,
-    >(
-        __tokens: &mut __TOKENS,
-        __lookahead: Option<(i64, Tok, i64)>,
-        __sym0: (i64, Tok, i64),
-        __sym1: (i64, Tree, i64),
-        _: core::marker::PhantomData<()>,
-    ) -> Result<(Option<(i64, Tok, i64)>, __Nonterminal<>), __lalrpop_util::ParseError<i64, Tok, u64>>
-    {
-        let mut __result: (Option<(i64, Tok, i64)>, __Nonterminal<>);
-        match __lookahead {
-            Some((__loc1, __tok @ Tok('l', _, _, _), __loc2)) => {
-                let __sym2 = (__loc1, (__tok), __loc2);
-                __result = __state22(__tokens, __sym0, __sym1, __sym2, core::marker::PhantomData::<()>)?;
-                return Ok(__result);
-            }
-            _ => {
-                #[allow(clippy::needless_raw_string_hashes)]
-                let __expected = alloc::vec![
-                    r###""rp0""###.to_string(),
-                ];
-                return Err(
-                    match __lookahead {
-                        Some(__token) => {
-                            __lalrpop_util::ParseError::UnrecognizedToken {
-                                token: __token,
-                                expected: __expected,
-                            }
-                        }
-                        None => {
-                            let __location = __sym1.2.clone();
-                            __lalrpop_util::ParseError::UnrecognizedEof {
-                                location: __location,
-                                expected: __expected,
-                            }
-                        }
-                    }
-                )
-            }
-        }
-    }
-
-    fn __state18<
-        __TOKENS: Iterator<Item=Result<(i64, Tok, i64),__lalrpop_util::ParseError<i64, Tok, u64>>>,
-    >(
-        __tokens: &mut __TOKENS,
-        __lookahead: Option<(i64, Tok, i64)>,
-        __sym0: (i64, Tok, i64),
-        __sym1: (i64, Tree, i64),
-        _: core::marker::PhantomData<()>,
-    ) -> Result<(Option<(i64, Tok, i64)>, __Nonterminal<>), __lalrpop_util::ParseError<i64, Tok, u64>>
-    {
-        let mut __result: (Option<(i64, Tok, i64)>, __Nonterminal<>);
-        match __lookahead {
-            Some((__loc1, __tok @ Tok('h', _, _, _), __loc2)) => {
-                let __sym2 = (__loc1, (__tok), __loc2);
-                __result = __state23(__tokens, __sym0, __sym1, __sym2, core::marker::PhantomData::<()>)?;
-                return Ok(__result);
-            }
-            _ => {
-                #[allow(clippy::needless_raw_string_hashes)]
-                let __expected = alloc::vec![
-                    r###""t8""###.to_string(),
-                ];
-                return Err(
-                    match __lookahead {
-                        Some(__token) => {
-                            __lalrpop_util::ParseError::UnrecognizedToken {
-                                token: __token,
-                                expected: __expected,
-                            }
-                        }
-                        None => {
-                            let __location = __sym1.2.clone();
-                            __lalrpop_util::ParseError::UnrecognizedEof {
-                                location: __location,
-                                expected: __expected,
-                            }
-                        }
-                    }
-                )
-            }
-        }
-    }
-
-    fn __state19<
-        __TOKENS: Iterator<Item=Result<(i64, Tok, i64),__lalrpop_util::ParseError<i64, Tok, u64>>>,
-    >(
-        __tokens: &mut __TOKENS,
-        __lookahead: Option<(i64, Tok, i64)>,
-        __sym0: (i64, Tok, i64),
-        __sym1: (i64, Tree, i64),
-        _: core::marker::PhantomData<()>,
-    ) -> Result<(Option<(i64, Tok, i64)>, __Nonterminal<>), __lalrpop_util::ParseError<i64, Tok, u64>>
-    {
-        let mut __result: (Option<(i64, Tok, i64)>, __Nonterminal<>);
-        match __lookahead {
-            Some((__loc1, __tok @ Tok('j', _, _, _), __loc2)) => {
-                let __sym2 = (__loc1, (__tok), __loc2);
-                __result = __state24(__tokens, __sym0, __sym1, __sym2, core::marker::PhantomData::<()>)?;
-                return Ok(__result);
-            }
-            _ => {
-                #[allow(clippy::needless_raw_string_hashes)]
-                let __expected = alloc::vec![
-                    r###""t10""###.to_string(),
-                ];
-                return Err(
-                    match __lookahead {
-                        Some(__token) => {
-                            __lalrpop_util::ParseError::UnrecognizedToken {
-                                token: __token,
-                                expected: __expected,
-                            }
-                        }
-                        None => {
-                            let __location = __sym1.2.clone();
-                            __lalrpop_util::ParseError::UnrecognizedEof {
-                                location: __location,
-                                expected: __expected,
-                            }
-                        }
-                    }
-                )
-            }
-        }
-    }
-
-    fn __state20<
-        __TOKENS: Iterator<Item=Result<(i64, Tok, i64),__lalrpop_util::ParseError<i64, Tok, u64>>>,
-    >(
-        __tokens: &mut __TOKENS,
-        __lookahead: Option<(i64, Tok, i64)>,
-        __sym0: (i64, Tok, i64),
-        __sym1: (i64, Tree, i64),
-        _: core::marker::PhantomData<()>,
-    ) -> Result<(Option<(i64, Tok, i64)>, __Nonterminal<>), __lalrpop_util::ParseError<i64, Tok, u64>>
-    {
-        let mut __result: (Option<(i64, Tok, i64)>, __Nonterminal<>);
-        match __lookahead {
-            Some((__loc1, __tok @ Tok('a', _, _, _), __loc2)) => {
-                let __sym2 = (__loc1, (__tok), __loc2);
-                __result = __state6(__tokens, __sym0, __sym1, __sym2, core::marker::PhantomData::<()>)?;
-                return Ok(__result);
-            }
-            _ => {
-                #[allow(clippy::needless_raw_string_hashes)]
-                let __expected = alloc::vec![
-                    r###""w""###.to_string(),
-                ];
-                return Err(
-                    match __lookahead {
-                        Some(__token) => {
-                            __lalrpop_util::ParseError::UnrecognizedToken {
-                                token: __token,
-                                expected: __expected,
-                            }
-                        }
-                        None => {
-                            let __location = __sym1.2.clone();
-                            __lalrpop_util::ParseError::UnrecognizedEof {
-                                location: __location,
-                                expected: __expected,
-                            }
-                        }
-                    }
-                )
-            }
-        }
-    }
-
-    fn __state21<
-        __TOKENS: Iterator<Item=Result<(i64, Tok, i64),__lalrpop_util::ParseError<i64, Tok, u64>>>,
-    >(
-        __tokens: &mut __TOKENS,
-        __lookahead: Option<(i64, Tok, i64)>,
-        __sym0: (i64, Tree, i64),
-        __sym1: (i64, Tok, i64),
-        __sym2: (i64, Tree, i64),
-        _: core::marker::PhantomData<()>,
-    ) -> Result<(Option<(i64, Tok, i64)>, __Nonterminal<>), __lalrpop_util::ParseError<i64, Tok, u64>>
-    {
-        let mut __result: (Option<(i64, Tok, i64)>, __Nonterminal<>);
-        match __lookahead {
-            Some((__loc1, __tok @ Tok('d', _, _, _), __loc2)) => {
-                let __sym3 = (__loc1, (__tok), __loc2);
-                __result = __state7(__tokens, __sym0, __sym1, __sym2, __sym3, core::marker::PhantomData::<()>)?;
-                return Ok(__result);
-            }
-            _ => {
-                #[allow(clippy::needless_raw_string_hashes)]
-                let __expected = alloc::vec![
-                    r###""t3""###.to_string(),
-                ];
-                return Err(
-                    match __lookahead {
-                        Some(__token) => {
-                            __lalrpop_util::ParseError::UnrecognizedToken {
-                                token: __token,
-                                expected: __expected,
-                            }
-                        }
-                        None => {
-                            let __location = __sym2.2.clone();
-                            __lalrpop_util::ParseError::UnrecognizedEof {
-                                location: __location,
-                                expected: __expected,
-                            }
-                        }
-                    }
-                )
-            }
-        }
-    }
-
-    fn __state22<
-        __TOKENS: Iterator<Item=Result<(i64, Tok, i64),__lalrpop_util::ParseError<i64, Tok, u64>>>,
-    >(
-        __tokens: &mut __TOKENS,
         __sym0: (i64, Tok, i64),
         __sym1: (i64, Tree, i64),
         __sym2: (i64, Tok, i64),
@@ -1517,13 +762,12 @@ mod __parse__S {
         match __lookahead {
             Some((_, Tok('a', _, _, _), _)) |
             Some((_, Tok('b', _, _, _), _)) |
-            Some((_, Tok('j', _, _, _), _)) |
-            Some((_, Tok('l', _, _, _), _)) |
+            Some((_, Tok('d', _, _, _), _)) |
             None => {
                 let __start = __sym0.0.clone();
                 let __end = __sym2.2.clone();
-                let __nt = super::__action33::<>(__sym0, __sym1, __sym2);
-                let __nt = __Nonterminal::P0((
+                let __nt = super::__action17::<>(__sym0, __sym1, __sym2);
+                let __nt = __Nonterminal::F((
                     __start,
                     __nt,
                     __end,
@@ -1534,10 +778,9 @@ mod __parse__S {
             _ => {
                 #[allow(clippy::needless_raw_string_hashes)]
                 let __expected = alloc::vec![
-                    r###""w""###.to_string(),
-                    r###""t1""###.to_string(),
-                    r###""t10""###.to_string(),
-                    r###""rp0""###.to_string(),
+                    r###""+""###.to_string(),
+                    r###""*""###.to_string(),
+                    r###"")""###.to_string(),
                 ];
                 return Err(
                     match __lookahead {
@@ -1549,245 +792,6 @@ mod __parse__S {
                         }
                         None => {
                             let __location = __sym2.2.clone();
-                            __lalrpop_util::ParseError::UnrecognizedEof {
-                                location: __location,
-                                expected: __expected,
-                            }
-                        }
-                    }
-                )
-            }
-        }
-    }
-
-    fn __state23<
-        __TOKENS: Iterator<Item=Result<(i64, Tok, i64),__lalrpop_util::ParseError<i64, Tok, u64>>>,
-    >(
-        __tokens: &mut __TOKENS,
-        __sym0: (i64, Tok, i64),
-        __sym1: (i64, Tree, i64),
-        __sym2: (i64, Tok, i64),
-        _: core::marker::PhantomData<()>,
-    ) -> Result<(Option<(i64, Tok, i64)>, __Nonterminal<>), __lalrpop_util::ParseError<i64, Tok, u64>>
-    {
-        let mut __result: (Option<(i64, Tok, i64)>, __Nonterminal<>);
-        let __lookahead = match __tokens.next() {
-            Some(Ok(v)) => Some(v),
-            Some(Err(e)) => return Err(e),
-            None => None,
-        };
-        match __lookahead {
-            Some((_, Tok('a', _, _, _), _)) |
-            Some((_, Tok('b', _, _, _), _)) |
-            Some((_, Tok('c', _, _, _), _)) |
-            Some((_, Tok('d', _, _, _), _)) |
-            Some((_, Tok('h', _, _, _), _)) |
-            Some((_, Tok('j', _, _, _), _)) |
-            Some((_, Tok('l', _, _, _), _)) |
-            None => {
-                let __start = __sym0.0.clone();
-                let __end = __sym2.2.clone();
-                let __nt = super::__action29::<>(__sym0, __sym1, __sym2);
-                let __nt = __Nonterminal::E2((
-                    __start,
-                    __nt,
-                    __end,
-                ));
-                __result = (__lookahead, __nt);
-                return Ok(__result);
-            }
-            _ => {
-                #[allow(clippy::needless_raw_string_hashes)]
-                let __expected = alloc::vec![
-                    r###""w""###.to_string(),
-                    r###""t1""###.to_string(),
-                    r###""t2""###.to_string(),
-                    r###""t3""###.to_string(),
-                    r###""t8""###.to_string(),
-                    r###""t10""###.to_string(),
-                    r###""rp0""###.to_string(),
-                ];
-                return Err(
-                    match __lookahead {
-                        Some(__token) => {
-                            __lalrpop_util::ParseError::UnrecognizedToken {
-                                token: __token,
-                                expected: __expected,
-                            }
-                        }
-                        None => {
-                            let __location = __sym2.2.clone();
-                            __lalrpop_util::ParseError::UnrecognizedEof {
-                                location: __location,
-                                expected: __expected,
-                            }
-                        }
-                    }
-                )
-            }
-        }
-    }
-
-    fn __state24<
-        __TOKENS: Iterator<Item=Result<(i64, Tok, i64),__lalrpop_util::ParseError<i64, Tok, u64>>>,
-    >(
-        __tokens: &mut __TOKENS,
-        __sym0: (i64, Tok, i64),
-        __sym1: (i64, Tree, i64),
-        __sym2: (i64, Tok, i64),
-        _: core::marker::PhantomData<()>,
-    ) -> Result<(Option<(i64, Tok, i64)>, __Nonterminal<>), __lalrpop_util::ParseError<i64, Tok, u64>>
-    {
-        let mut __result: (Option<(i64, Tok, i64)>, __Nonterminal<>);
-        let __lookahead = match __tokens.next() {
-            Some(Ok(v)) => Some(v),
-            Some(Err(e)) => return Err(e),
-            None => None,
-        };
-        match __lookahead {
-            Some((_, Tok('a', _, _, _), _)) |
-            Some((_, Tok('j', _, _, _), _)) |
-            Some((_, Tok('l', _, _, _), _)) |
-            None => {
-                let __start = __sym0.0.clone();
-                let __end = __sym2.2.clone();
-                let __nt = super::__action26::<>(__sym0, __sym1, __sym2);
-                let __nt = __Nonterminal::E((
-                    __start,
-                    __nt,
-                    __end,
-                ));
-                __result = (__lookahead, __nt);
-                return Ok(__result);
-            }
-            _ => {
-                #[allow(clippy::needless_raw_string_hashes)]
-                let __expected = alloc::vec![
-                    r###""w""###.to_string(),
-                    r###""t10""###.to_string(),
-                    r###""rp0""###.to_string(),
-                ];
-                return Err(
-                    match __lookahead {
-                        Some(__token) => {
-                            __lalrpop_util::ParseError::UnrecognizedToken {
-                                token: __token,
-                                expected: __expected,
-                            }
-                        }
-                        None => {
-                            let __location = __sym2.2.clone();
-                            __lalrpop_util::ParseError::UnrecognizedEof {
-                                location: __location,
-                                expected: __expected,
-                            }
-                        }
-                    }
-                )
-            }
-        }
-    }
-
-    fn __state25<
-        __TOKENS: Iterator<Item=Result<(i64, Tok, i64),__lalrpop_util::ParseError<i64, Tok, u64>>>,
-    >(
-        __tokens: &mut __TOKENS,
-        __lookahead: Option<(i64, Tok, i64)>,
-        __sym0: (i64, Tok, i64),
-        __sym1: (i64, Tree, i64),
-        __sym2: (i64, Tok, i64),
-        __sym3: (i64, Tree, i64),
-        _: core::marker::PhantomData<()>,
-    ) -> Result<(Option<(i64, Tok, i64)>, __Nonterminal<>), __lalrpop_util::ParseError<i64, Tok, u64>>
-    {
-        let mut __result: (Option<(i64, Tok, i64)>, __Nonterminal<>);
-        match __lookahead {
-            None => {
-                let __start = __sym0.0.clone();
-                let __end = __sym3.2.clone();
-                let __nt = super::__action35::<>(__sym0, __sym1, __sym2, __sym3);
-                let __nt = __Nonterminal::S((
-                    __start,
-                    __nt,
-                    __end,
-                ));
-                __result = (__lookahead, __nt);
-                return Ok(__result);
-            }
-            _ => {
-                #[allow(clippy::needless_raw_string_hashes)]
-                let __expected = alloc::vec![
-                ];
-                return Err(
-                    match __lookahead {
-                        Some(__token) => {
-                            __lalrpop_util::ParseError::UnrecognizedToken {
-                                token: __token,
-                                expected: __expected,
-                            }
-                        }
-                        None => {
-                            let __location = __sym3.2.clone();
-                            __lalrpop_util::ParseError::UnrecognizedEof {
-                                location: __location,
-                                expected: __expected,
-                            }
-                        }
-                    }
-                )
-            }
-        }
-    }
-
-    fn __state26<
-        __TOKENS: Iterator<Item=Result<(i64, Tok, i64),__lalrpop_util::ParseError<i64, Tok, u64>>>,
-    >(
-        __tokens: &mut __TOKENS,
-        __lookahead: Option<(i64, Tok, i64)>,
-        __sym0: (i64, Tree, i64),
-        __sym1: (i64, Tok, i64),
-        __sym2: (i64, Tree, i64),
-        __sym3: (i64, Tok, i64),
-        __sym4: (i64, Tree, i64),
-        _: core::marker::PhantomData<()>,
-    ) -> Result<(Option<(i64, Tok, i64)>, __Nonterminal<>), __lalrpop_util::ParseError<i64, Tok, u64>>
-    {
-        let mut __result: (Option<(i64, Tok, i64)>, __Nonterminal<>);
-        match __lookahead {
-            Some((_, Tok('a', _, _, _), _)) |
-            Some((_, Tok('b', _, _, _), _)) |
-            Some((_, Tok('j', _, _, _), _)) |
-            Some((_, Tok('l', _, _, _), _)) |
-            None => {
-                let __start = __sym0.0.clone();
-                let __end = __sym4.2.clone();
-                let __nt = super::__action32::<>(__sym0, __sym1, __sym2, __sym3, __sym4);
-                let __nt = __Nonterminal::E3((
-                    __start,
-                    __nt,
-                    __end,
-                ));
-                __result = (__lookahead, __nt);
-                return Ok(__result);
-            }
-            _ => {
-                #[allow(clippy::needless_raw_string_hashes)]
-                let __expected = alloc::vec![
-                    r###""w""###.to_string(),
-                    r###""t1""###.to_string(),
-                    r###""t10""###.to_string(),
-                    r###""rp0""###.to_string(),
-                ];
-                return Err(
-                    match __lookahead {
-                        Some(__token) => {
-                            __lalrpop_util::ParseError::UnrecognizedToken {
-                                token: __token,
-                                expected: __expected,
-                            }
-                        }
-                        None => {
-                            let __location = __sym4.2.clone();
                             __lalrpop_util::ParseError::UnrecognizedEof {
                                 location: __location,
                                 expected: __expected,
@@ -1800,7 +804,7 @@ mod __parse__S {
     }
 }
 #[allow(unused_imports)]
-pub use self::__parse__S::SParser;
+pub use self::__parse__E::EParser;
 
 #[allow(clippy::too_many_arguments, clippy::needless_lifetimes, clippy::just_underscores_and_digits, clippy::extra_unused_type_parameters)]
 fn __action0<
@@ -1816,48 +820,47 @@ fn __action1<
 >(
     (_, l, _): (i64, i64, i64),
     (_, c0, _): (i64, Tree, i64),
+    (_, c1, _): (i64, Tok, i64),
+    (_, c2, _): (i64, Tree, i64),
     (_, r, _): (i64, i64, i64),
 ) -> Tree
 {
-    node("S#0", l, r, vec![Tree::from(c0)])
+    node("E#0", l, r, vec![Tree::from(c0), Tree::from(c1), Tree::from(c2)])
 }
 
 #[allow(clippy::too_many_arguments, clippy::needless_lifetimes, clippy::just_underscores_and_digits, clippy::extra_unused_type_parameters)]
 fn __action2<
 >(
     (_, l, _): (i64, i64, i64),
-    (_, c0, _): (i64, Tok, i64),
-    (_, c1, _): (i64, Tree, i64),
-    (_, c2, _): (i64, Tok, i64),
-    (_, c3, _): (i64, Tree, i64),
+    (_, c0, _): (i64, Tree, i64),
     (_, r, _): (i64, i64, i64),
 ) -> Tree
 {
-    node("S#1", l, r, vec![Tree::from(c0), Tree::from(c1), Tree::from(c2), Tree::from(c3)])
+    node("E#1", l, r, vec![Tree::from(c0)])
 }
 
 #[allow(clippy::too_many_arguments, clippy::needless_lifetimes, clippy::just_underscores_and_digits, clippy::extra_unused_type_parameters)]
 fn __action3<
 >(
     (_, l, _): (i64, i64, i64),
-    (_, c0, _): (i64, Tok, i64),
-    (_, c1, _): (i64, Tree, i64),
-    (_, c2, _): (i64, Tok, i64),
+    (_, c0, _): (i64, Tree, i64),
+    (_, c1, _): (i64, Tok, i64),
+    (_, c2, _): (i64, Tree, i64),
     (_, r, _): (i64, i64, i64),
 ) -> Tree
 {
-    node("P0#0", l, r, vec![Tree::from(c0), Tree::from(c1), Tree::from(c2)])
+    node("T#0", l, r, vec![Tree::from(c0), Tree::from(c1), Tree::from(c2)])
 }
 
 #[allow(clippy::too_many_arguments, clippy::needless_lifetimes, clippy::just_underscores_and_digits, clippy::extra_unused_type_parameters)]
 fn __action4<
 >(
     (_, l, _): (i64, i64, i64),
-    (_, c0, _): (i64, Tok, i64),
+    (_, c0, _): (i64, Tree, i64),
     (_, r, _): (i64, i64, i64),
 ) -> Tree
 {
-    node("E#3", l, r, vec![Tree::from(c0)])
+    node("T#1", l, r, vec![Tree::from(c0)])
 }
 
 #[allow(clippy::too_many_arguments, clippy::needless_lifetimes, clippy::just_underscores_and_digits, clippy::extra_unused_type_parameters)]
@@ -1865,10 +868,12 @@ fn __action5<
 >(
     (_, l, _): (i64, i64, i64),
     (_, c0, _): (i64, Tok, i64),
+    (_, c1, _): (i64, Tree, i64),
+    (_, c2, _): (i64, Tok, i64),
     (_, r, _): (i64, i64, i64),
 ) -> Tree
 {
-    node("E#4", l, r, vec![Tree::from(c0)])
+    node("F#0", l, r, vec![Tree::from(c0), Tree::from(c1), Tree::from(c2)])
 }
 
 #[allow(clippy::too_many_arguments, clippy::needless_lifetimes, clippy::just_underscores_and_digits, clippy::extra_unused_type_parameters)]
@@ -1876,94 +881,14 @@ fn __action6<
 >(
     (_, l, _): (i64, i64, i64),
     (_, c0, _): (i64, Tok, i64),
-    (_, c1, _): (i64, Tree, i64),
-    (_, c2, _): (i64, Tok, i64),
     (_, r, _): (i64, i64, i64),
 ) -> Tree
 {
-    node("E#5", l, r, vec![Tree::from(c0), Tree::from(c1), Tree::from(c2)])
-}
-
-#[allow(clippy::too_many_arguments, clippy::needless_lifetimes, clippy::just_underscores_and_digits, clippy::extra_unused_type_parameters)]
-fn __action7<
->(
-    (_, __0, _): (i64, Tree, i64),
-) -> Tree
-{
-    __0
-}
-
-#[allow(clippy::too_many_arguments, clippy::needless_lifetimes, clippy::just_underscores_and_digits, clippy::extra_unused_type_parameters)]
-fn __action8<
->(
-    (_, l, _): (i64, i64, i64),
-    (_, c0, _): (i64, Tree, i64),
-    (_, r, _): (i64, i64, i64),
-) -> Tree
-{
-    node("E#0", l, r, vec![Tree::from(c0)])
-}
-
-#[allow(clippy::too_many_arguments, clippy::needless_lifetimes, clippy::just_underscores_and_digits, clippy::extra_unused_type_parameters)]
-fn __action9<
->(
-    (_, l, _): (i64, i64, i64),
-    (_, c0, _): (i64, Tree, i64),
-    (_, c1, _): (i64, Tok, i64),
-    (_, r, _): (i64, i64, i64),
-) -> Tree
-{
-    node("E#1", l, r, vec![Tree::from(c0), Tree::from(c1)])
-}
-
-#[allow(clippy::too_many_arguments, clippy::needless_lifetimes, clippy::just_underscores_and_digits, clippy::extra_unused_type_parameters)]
-fn __action10<
->(
-    (_, l, _): (i64, i64, i64),
-    (_, c0, _): (i64, Tree, i64),
-    (_, c1, _): (i64, Tok, i64),
-    (_, c2, _): (i64, Tree, i64),
-    (_, c3, _): (i64, Tok, i64),
-    (_, c4, _): (i64, Tree, i64),
-    (_, r, _): (i64, i64, i64),
-) -> Tree
-{
-    node("E#2", l, r, vec![Tree::from(c0), Tree::from(c1), Tree::from(c2), Tree::from(c3), Tree::from(c4)])
-}
-
-#[allow(clippy::too_many_arguments, clippy::needless_lifetimes, clippy::just_underscores_and_digits, clippy::extra_unused_type_parameters)]
-fn __action11<
->(
-    (_, __0, _): (i64, Tree, i64),
-) -> Tree
-{
-    __0
-}
-
-#[allow(clippy::too_many_arguments, clippy::needless_lifetimes, clippy::just_underscores_and_digits, clippy::extra_unused_type_parameters)]
-fn __action12<
->(
-    (_, l, _): (i64, i64, i64),
-    (_, c0, _): (i64, Tok, i64),
-    (_, c1, _): (i64, Tree, i64),
-    (_, c2, _): (i64, Tok, i64),
-    (_, r, _): (i64, i64, i64),
-) -> Tree
-{
-    node("E#6", l, r, vec![Tree::from(c0), Tree::from(c1), Tree::from(c2)])
-}
-
-#[allow(clippy::too_many_arguments, clippy::needless_lifetimes, clippy::just_underscores_and_digits, clippy::extra_unused_type_parameters)]
-fn __action13<
->(
-    (_, __0, _): (i64, Tree, i64),
-) -> Tree
-{
-    __0
+    node("F#1", l, r, vec![Tree::from(c0)])
 }
 
 #[allow(clippy::needless_lifetimes)]
-fn __action14<
+fn __action7<
 >(
     __lookbehind: &i64,
     __lookahead: &i64,
@@ -1973,7 +898,7 @@ fn __action14<
 }
 
 #[allow(clippy::needless_lifetimes)]
-fn __action15<
+fn __action8<
 >(
     __lookbehind: &i64,
     __lookahead: &i64,
@@ -1984,22 +909,22 @@ fn __action15<
 
 #[allow(clippy::too_many_arguments, clippy::needless_lifetimes,
     clippy::just_underscores_and_digits, clippy::clone_on_copy, clippy::unit_arg)]
-fn __action16<
+fn __action9<
 >(
-    __0: (i64, Tok, i64),
-    __1: (i64, Tree, i64),
-    __2: (i64, Tok, i64),
+    __0: (i64, Tree, i64),
+    __1: (i64, Tok, i64),
+    __2: (i64, Tree, i64),
     __3: (i64, i64, i64),
 ) -> Tree
 {
     let __start0 = __0.0.clone();
     let __end0 = __0.0.clone();
-    let __temp0 = __action15(
+    let __temp0 = __action8(
         &__start0,
         &__end0,
     );
     let __temp0 = (__start0, __temp0, __end0);
-    __action12(
+    __action1(
         __temp0,
         __0,
         __1,
@@ -2010,20 +935,20 @@ fn __action16<
 
 #[allow(clippy::too_many_arguments, clippy::needless_lifetimes,
     clippy::just_underscores_and_digits, clippy::clone_on_copy, clippy::unit_arg)]
-fn __action17<
+fn __action10<
 >(
-    __0: (i64, Tok, i64),
+    __0: (i64, Tree, i64),
     __1: (i64, i64, i64),
 ) -> Tree
 {
     let __start0 = __0.0.clone();
     let __end0 = __0.0.clone();
-    let __temp0 = __action15(
+    let __temp0 = __action8(
         &__start0,
         &__end0,
     );
     let __temp0 = (__start0, __temp0, __end0);
-    __action4(
+    __action2(
         __temp0,
         __0,
         __1,
@@ -2032,15 +957,17 @@ fn __action17<
 
 #[allow(clippy::too_many_arguments, clippy::needless_lifetimes,
     clippy::just_underscores_and_digits, clippy::clone_on_copy, clippy::unit_arg)]
-fn __action18<
+fn __action11<
 >(
     __0: (i64, Tok, i64),
-    __1: (i64, i64, i64),
+    __1: (i64, Tree, i64),
+    __2: (i64, Tok, i64),
+    __3: (i64, i64, i64),
 ) -> Tree
 {
     let __start0 = __0.0.clone();
     let __end0 = __0.0.clone();
-    let __temp0 = __action15(
+    let __temp0 = __action8(
         &__start0,
         &__end0,
     );
@@ -2049,22 +976,22 @@ fn __action18<
         __temp0,
         __0,
         __1,
+        __2,
+        __3,
     )
 }
 
 #[allow(clippy::too_many_arguments, clippy::needless_lifetimes,
     clippy::just_underscores_and_digits, clippy::clone_on_copy, clippy::unit_arg)]
-fn __action19<
+fn __action12<
 >(
     __0: (i64, Tok, i64),
-    __1: (i64, Tree, i64),
-    __2: (i64, Tok, i64),
-    __3: (i64, i64, i64),
+    __1: (i64, i64, i64),
 ) -> Tree
 {
     let __start0 = __0.0.clone();
     let __end0 = __0.0.clone();
-    let __temp0 = __action15(
+    let __temp0 = __action8(
         &__start0,
         &__end0,
     );
@@ -2073,100 +1000,22 @@ fn __action19<
         __temp0,
         __0,
         __1,
-        __2,
-        __3,
     )
 }
 
 #[allow(clippy::too_many_arguments, clippy::needless_lifetimes,
     clippy::just_underscores_and_digits, clippy::clone_on_copy, clippy::unit_arg)]
-fn __action20<
->(
-    __0: (i64, Tree, i64),
-    __1: (i64, i64, i64),
-) -> Tree
-{
-    let __start0 = __0.0.clone();
-    let __end0 = __0.0.clone();
-    let __temp0 = __action15(
-        &__start0,
-        &__end0,
-    );
-    let __temp0 = (__start0, __temp0, __end0);
-    __action8(
-        __temp0,
-        __0,
-        __1,
-    )
-}
-
-#[allow(clippy::too_many_arguments, clippy::needless_lifetimes,
-    clippy::just_underscores_and_digits, clippy::clone_on_copy, clippy::unit_arg)]
-fn __action21<
->(
-    __0: (i64, Tree, i64),
-    __1: (i64, Tok, i64),
-    __2: (i64, i64, i64),
-) -> Tree
-{
-    let __start0 = __0.0.clone();
-    let __end0 = __0.0.clone();
-    let __temp0 = __action15(
-        &__start0,
-        &__end0,
-    );
-    let __temp0 = (__start0, __temp0, __end0);
-    __action9(
-        __temp0,
-        __0,
-        __1,
-        __2,
-    )
-}
-
-#[allow(clippy::too_many_arguments, clippy::needless_lifetimes,
-    clippy::just_underscores_and_digits, clippy::clone_on_copy, clippy::unit_arg)]
-fn __action22<
+fn __action13<
 >(
     __0: (i64, Tree, i64),
     __1: (i64, Tok, i64),
     __2: (i64, Tree, i64),
-    __3: (i64, Tok, i64),
-    __4: (i64, Tree, i64),
-    __5: (i64, i64, i64),
-) -> Tree
-{
-    let __start0 = __0.0.clone();
-    let __end0 = __0.0.clone();
-    let __temp0 = __action15(
-        &__start0,
-        &__end0,
-    );
-    let __temp0 = (__start0, __temp0, __end0);
-    __action10(
-        __temp0,
-        __0,
-        __1,
-        __2,
-        __3,
-        __4,
-        __5,
-    )
-}
-
-#[allow(clippy::too_many_arguments, clippy::needless_lifetimes,
-    clippy::just_underscores_and_digits, clippy::clone_on_copy, clippy::unit_arg)]
-fn __action23<
->(
-    __0: (i64, Tok, i64),
-    __1: (i64, Tree, i64),
-    __2: (i64, Tok, i64),
     __3: (i64, i64, i64),
 ) -> Tree
 {
     let __start0 = __0.0.clone();
     let __end0 = __0.0.clone();
-    let __temp0 = __action15(
+    let __temp0 = __action8(
         &__start0,
         &__end0,
     );
@@ -2182,7 +1031,7 @@ fn __action23<
 
 #[allow(clippy::too_many_arguments, clippy::needless_lifetimes,
     clippy::just_underscores_and_digits, clippy::clone_on_copy, clippy::unit_arg)]
-fn __action24<
+fn __action14<
 >(
     __0: (i64, Tree, i64),
     __1: (i64, i64, i64),
@@ -2190,12 +1039,12 @@ fn __action24<
 {
     let __start0 = __0.0.clone();
     let __end0 = __0.0.clone();
-    let __temp0 = __action15(
+    let __temp0 = __action8(
         &__start0,
         &__end0,
     );
     let __temp0 = (__start0, __temp0, __end0);
-    __action1(
+    __action4(
         __temp0,
         __0,
         __1,
@@ -2204,193 +1053,51 @@ fn __action24<
 
 #[allow(clippy::too_many_arguments, clippy::needless_lifetimes,
     clippy::just_underscores_and_digits, clippy::clone_on_copy, clippy::unit_arg)]
-fn __action25<
->(
-    __0: (i64, Tok, i64),
-    __1: (i64, Tree, i64),
-    __2: (i64, Tok, i64),
-    __3: (i64, Tree, i64),
-    __4: (i64, i64, i64),
-) -> Tree
-{
-    let __start0 = __0.0.clone();
-    let __end0 = __0.0.clone();
-    let __temp0 = __action15(
-        &__start0,
-        &__end0,
-    );
-    let __temp0 = (__start0, __temp0, __end0);
-    __action2(
-        __temp0,
-        __0,
-        __1,
-        __2,
-        __3,
-        __4,
-    )
-}
-
-#[allow(clippy::too_many_arguments, clippy::needless_lifetimes,
-    clippy::just_underscores_and_digits, clippy::clone_on_copy, clippy::unit_arg)]
-fn __action26<
->(
-    __0: (i64, Tok, i64),
-    __1: (i64, Tree, i64),
-    __2: (i64, Tok, i64),
-) -> Tree
-{
-    let __start0 = __2.2.clone();
-    let __end0 = __2.2.clone();
-    let __temp0 = __action14(
-        &__start0,
-        &__end0,
-    );
-    let __temp0 = (__start0, __temp0, __end0);
-    __action16(
-        __0,
-        __1,
-        __2,
-        __temp0,
-    )
-}
-
-#[allow(clippy::too_many_arguments, clippy::needless_lifetimes,
-    clippy::just_underscores_and_digits, clippy::clone_on_copy, clippy::unit_arg)]
-fn __action27<
->(
-    __0: (i64, Tok, i64),
-) -> Tree
-{
-    let __start0 = __0.2.clone();
-    let __end0 = __0.2.clone();
-    let __temp0 = __action14(
-        &__start0,
-        &__end0,
-    );
-    let __temp0 = (__start0, __temp0, __end0);
-    __action17(
-        __0,
-        __temp0,
-    )
-}
-
-#[allow(clippy::too_many_arguments, clippy::needless_lifetimes,
-    clippy::just_underscores_and_digits, clippy::clone_on_copy, clippy::unit_arg)]
-fn __action28<
->(
-    __0: (i64, Tok, i64),
-) -> Tree
-{
-    let __start0 = __0.2.clone();
-    let __end0 = __0.2.clone();
-    let __temp0 = __action14(
-        &__start0,
-        &__end0,
-    );
-    let __temp0 = (__start0, __temp0, __end0);
-    __action18(
-        __0,
-        __temp0,
-    )
-}
-
-#[allow(clippy::too_many_arguments, clippy::needless_lifetimes,
-    clippy::just_underscores_and_digits, clippy::clone_on_copy, clippy::unit_arg)]
-fn __action29<
->(
-    __0: (i64, Tok, i64),
-    __1: (i64, Tree, i64),
-    __2: (i64, Tok, i64),
-) -> Tree
-{
-    let __start0 = __2.2.clone();
-    let __end0 = __2.2.clone();
-    let __temp0 = __action14(
-        &__start0,
-        &__end0,
-    );
-    let __temp0 = (__start0, __temp0, __end0);
-    __action19(
-        __0,
-        __1,
-        __2,
-        __temp0,
-    )
-}
-
-#[allow(clippy::too_many_arguments, clippy::needless_lifetimes,
-    clippy::just_underscores_and_digits, clippy::clone_on_copy, clippy::unit_arg)]
-fn __action30<
->(
-    __0: (i64, Tree, i64),
-) -> Tree
-{
-    let __start0 = __0.2.clone();
-    let __end0 = __0.2.clone();
-    let __temp0 = __action14(
-        &__start0,
-        &__end0,
-    );
-    let __temp0 = (__start0, __temp0, __end0);
-    __action20(
-        __0,
-        __temp0,
-    )
-}
-
-#[allow(clippy::too_many_arguments, clippy::needless_lifetimes,
-    clippy::just_underscores_and_digits, clippy::clone_on_copy, clippy::unit_arg)]
-fn __action31<
->(
-    __0: (i64, Tree, i64),
-    __1: (i64, Tok, i64),
-) -> Tree
-{
-    let __start0 = __1.2.clone();
-    let __end0 = __1.2.clone();
-    let __temp0 = __action14(
-        &__start0,
-        &__end0,
-    );
-    let __temp0 = (__start0, __temp0, __end0);
-    __action21(
-        __0,
-        __1,
-        __temp0,
-    )
-}
-
-#[allow(clippy::too_many_arguments, clippy::needless_lifetimes,
-    clippy::just_underscores_and_digits, clippy::clone_on_copy, clippy::unit_arg)]
-fn __action32<
+fn __action15<
 >(
     __0: (i64, Tree, i64),
     __1: (i64, Tok, i64),
     __2: (i64, Tree, i64),
-    __3: (i64, Tok, i64),
-    __4: (i64, Tree, i64),
 ) -> Tree
 {
-    let __start0 = __4.2.clone();
-    let __end0 = __4.2.clone();
-    let __temp0 = __action14(
+    let __start0 = __2.2.clone();
+    let __end0 = __2.2.clone();
+    let __temp0 = __action7(
         &__start0,
         &__end0,
     );
     let __temp0 = (__start0, __temp0, __end0);
-    __action22(
+    __action9(
         __0,
         __1,
         __2,
-        __3,
-        __4,
         __temp0,
     )
 }
 
 #[allow(clippy::too_many_arguments, clippy::needless_lifetimes,
     clippy::just_underscores_and_digits, clippy::clone_on_copy, clippy::unit_arg)]
-fn __action33<
+fn __action16<
+>(
+    __0: (i64, Tree, i64),
+) -> Tree
+{
+    let __start0 = __0.2.clone();
+    let __end0 = __0.2.clone();
+    let __temp0 = __action7(
+        &__start0,
+        &__end0,
+    );
+    let __temp0 = (__start0, __temp0, __end0);
+    __action10(
+        __0,
+        __temp0,
+    )
+}
+
+#[allow(clippy::too_many_arguments, clippy::needless_lifetimes,
+    clippy::just_underscores_and_digits, clippy::clone_on_copy, clippy::unit_arg)]
+fn __action17<
 >(
     __0: (i64, Tok, i64),
     __1: (i64, Tree, i64),
@@ -2399,12 +1106,12 @@ fn __action33<
 {
     let __start0 = __2.2.clone();
     let __end0 = __2.2.clone();
-    let __temp0 = __action14(
+    let __temp0 = __action7(
         &__start0,
         &__end0,
     );
     let __temp0 = (__start0, __temp0, __end0);
-    __action23(
+    __action11(
         __0,
         __1,
         __2,
@@ -2414,46 +1121,64 @@ fn __action33<
 
 #[allow(clippy::too_many_arguments, clippy::needless_lifetimes,
     clippy::just_underscores_and_digits, clippy::clone_on_copy, clippy::unit_arg)]
-fn __action34<
+fn __action18<
+>(
+    __0: (i64, Tok, i64),
+) -> Tree
+{
+    let __start0 = __0.2.clone();
+    let __end0 = __0.2.clone();
+    let __temp0 = __action7(
+        &__start0,
+        &__end0,
+    );
+    let __temp0 = (__start0, __temp0, __end0);
+    __action12(
+        __0,
+        __temp0,
+    )
+}
+
+#[allow(clippy::too_many_arguments, clippy::needless_lifetimes,
+    clippy::just_underscores_and_digits, clippy::clone_on_copy, clippy::unit_arg)]
+fn __action19<
+>(
+    __0: (i64, Tree, i64),
+    __1: (i64, Tok, i64),
+    __2: (i64, Tree, i64),
+) -> Tree
+{
+    let __start0 = __2.2.clone();
+    let __end0 = __2.2.clone();
+    let __temp0 = __action7(
+        &__start0,
+        &__end0,
+    );
+    let __temp0 = (__start0, __temp0, __end0);
+    __action13(
+        __0,
+        __1,
+        __2,
+        __temp0,
+    )
+}
+
+#[allow(clippy::too_many_arguments, clippy::needless_lifetimes,
+    clippy::just_underscores_and_digits, clippy::clone_on_copy, clippy::unit_arg)]
+fn __action20<
 >(
     __0: (i64, Tree, i64),
 ) -> Tree
 {
     let __start0 = __0.2.clone();
     let __end0 = __0.2.clone();
-    let __temp0 = __action14(
+    let __temp0 = __action7(
         &__start0,
         &__end0,
     );
     let __temp0 = (__start0, __temp0, __end0);
-    __action24(
+    __action14(
         __0,
-        __temp0,
-    )
-}
-
-#[allow(clippy::too_many_arguments, clippy::needless_lifetimes,
-    clippy::just_underscores_and_digits, clippy::clone_on_copy, clippy::unit_arg)]
-fn __action35<
->(
-    __0: (i64, Tok, i64),
-    __1: (i64, Tree, i64),
-    __2: (i64, Tok, i64),
-    __3: (i64, Tree, i64),
-) -> Tree
-{
-    let __start0 = __3.2.clone();
-    let __end0 = __3.2.clone();
-    let __temp0 = __action14(
-        &__start0,
-        &__end0,
-    );
-    let __temp0 = (__start0, __temp0, __end0);
-    __action25(
-        __0,
-        __1,
-        __2,
-        __3,
         __temp0,
     )
 }
